@@ -263,3 +263,2217 @@ Proof.
   rewrite proportions_sum by auto. rewrite Hs, <- INR_IZR_INZ.
   assert (Hp : 0 < INR n) by (apply lt_0_INR; lia). eqR. field. lra.
 Qed.
+
+(** * Part E — [np.histogram] with explicit edges (cumulative-count path) and
+      [_calculate_bins_values] *)
+
+Lemma e_filter_perm : forall {T} (f : T -> bool) (l l' : list T), Permutation l l' -> Permutation (filter f l) (filter f l').
+Proof.
+  intros T f l l' HP. induction HP as [|x l l' HP IH|x y l|l l' l'' H1 IH1 H2 IH2]; cbn.
+  - constructor.
+  - destruct (f x); auto.
+  - destruct (f x), (f y); auto. apply perm_swap.
+  - eapply Permutation_trans; eauto.
+Qed.
+
+Lemma e_filter_length_le : forall {T} (f g : T -> bool) (l : list T),
+  (forall x, In x l -> f x = true -> g x = true) -> (length (filter f l) <= length (filter g l))%nat.
+Proof.
+  intros T f g l. induction l as [|x l IH]; intros H; cbn; [lia|].
+  assert (IH' := IH (fun y Hy => H y (or_intror Hy))).
+  destruct (f x) eqn:Ef.
+  - rewrite (H x (or_introl eq_refl) Ef). cbn. lia.
+  - destruct (g x); cbn; lia.
+Qed.
+
+Lemma e_filter_all : forall {T} (f : T -> bool) (l : list T), (forall x, In x l -> f x = true) -> filter f l = l.
+Proof.
+  intros T f l. induction l as [|x l IH]; intros H; cbn; [reflexivity|].
+  rewrite (H x (or_introl eq_refl)). f_equal. apply IH. intros y Hy. apply H. right; auto.
+Qed.
+Lemma e_filter_none : forall {T} (f : T -> bool) (l : list T), (forall x, In x l -> f x = false) -> filter f l = [].
+Proof.
+  intros T f l. induction l as [|x l IH]; intros H; cbn; [reflexivity|].
+  rewrite (H x (or_introl eq_refl)). apply IH. intros y Hy. apply H. right; auto.
+Qed.
+
+Lemma count_lt_perm : forall (e : R) (xs xs' : list R), Permutation xs xs' -> count_lt (A:=RealA) e xs = count_lt (A:=RealA) e xs'.
+Proof. intros e xs xs' HP. unfold count_lt. f_equal. apply Permutation_length. apply e_filter_perm; auto. Qed.
+Lemma count_le_perm : forall (e : R) (xs xs' : list R), Permutation xs xs' -> count_le (A:=RealA) e xs = count_le (A:=RealA) e xs'.
+Proof. intros e xs xs' HP. unfold count_le. f_equal. apply Permutation_length. apply e_filter_perm; auto. Qed.
+
+Lemma cum_counts_perm : forall (edges xs xs' : list R), Permutation xs xs' ->
+  cum_counts (A:=RealA) edges xs = cum_counts (A:=RealA) edges xs'.
+Proof.
+  intros edges xs xs' HP. induction edges as [|e r IH]; [reflexivity|].
+  cbn [cum_counts]. destruct r as [|e' r'].
+  - f_equal. apply count_le_perm; auto.
+  - rewrite IH. f_equal. apply count_lt_perm; auto.
+Qed.
+Lemma edge_counts_perm : forall (edges xs xs' : list R), Permutation xs xs' ->
+  edge_counts (A:=RealA) edges xs = edge_counts (A:=RealA) edges xs'.
+Proof. intros. unfold edge_counts. f_equal. apply cum_counts_perm; auto. Qed.
+
+Lemma e_cum_length : forall (edges xs : list R), length (cum_counts (A:=RealA) edges xs) = length edges.
+Proof.
+  induction edges as [|e r IH]; intros xs; [reflexivity|].
+  cbn [cum_counts]. destruct r as [|e' r']; [reflexivity|]. cbn [length]. rewrite IH. reflexivity.
+Qed.
+Lemma e_diffZ_length : forall l : list Z, length (diffZ l) = pred (length l).
+Proof.
+  induction l as [|a r IH]; [reflexivity|]. cbn [diffZ]. destruct r as [|b r']; [reflexivity|].
+  cbn [length]. rewrite IH. reflexivity.
+Qed.
+Lemma edge_counts_length : forall (edges xs : list R), length (edge_counts (A:=RealA) edges xs) = pred (length edges).
+Proof. intros. unfold edge_counts. rewrite e_diffZ_length, e_cum_length. reflexivity. Qed.
+
+(** telescoping *)
+Lemma e_diffZ_sum : forall (a : Z) (l : list Z), Zsum (diffZ (a :: l)) = (last (a :: l) 0 - a)%Z.
+Proof.
+  intros a l. revert a. induction l as [|b l IH]; intros a.
+  - cbn. lia.
+  - change (diffZ (a :: b :: l)) with ((b - a)%Z :: diffZ (b :: l)).
+    change (Zsum ((b - a)%Z :: diffZ (b :: l))) with ((b - a) + Zsum (diffZ (b :: l)))%Z. rewrite IH.
+    change (last (a :: b :: l) 0%Z) with (last (b :: l) 0%Z). lia.
+Qed.
+
+Lemma e_cum_hd : forall (e e' : R) (r xs : list R),
+  cum_counts (A:=RealA) (e :: e' :: r) xs = count_lt (A:=RealA) e xs :: cum_counts (A:=RealA) (e' :: r) xs.
+Proof. reflexivity. Qed.
+Lemma e_cum_last : forall (edges xs : list R), edges <> [] ->
+  last (cum_counts (A:=RealA) edges xs) 0%Z = count_le (A:=RealA) (last edges 0) xs.
+Proof.
+  induction edges as [|e r IH]; intros xs H; [congruence|].
+  destruct r as [|e' r']; [reflexivity|].
+  rewrite e_cum_hd.
+  change (last (e :: e' :: r') 0) with (last (e' :: r') 0).
+  rewrite <- IH by discriminate.
+  destruct (cum_counts (e' :: r') xs) eqn:E; [|reflexivity].
+  pose proof (e_cum_length (e' :: r') xs) as HL. rewrite E in HL. discriminate.
+Qed.
+
+Lemma e_count_lt_zero : forall (e : R) (xs : list R), (forall x, In x xs -> e <= x) -> count_lt (A:=RealA) e xs = 0%Z.
+Proof.
+  intros e xs H. unfold count_lt. rewrite e_filter_none; [reflexivity|].
+  intros x Hx. cbn [ltb RealA]. apply Rltb_false. auto.
+Qed.
+Lemma e_count_le_all : forall (e : R) (xs : list R), (forall x, In x xs -> x <= e) -> count_le (A:=RealA) e xs = Z.of_nat (length xs).
+Proof.
+  intros e xs H. unfold count_le. rewrite e_filter_all; [reflexivity|].
+  intros x Hx. cbn [leb RealA]. apply Rleb_true. auto.
+Qed.
+
+(** every value within [e_0, e_last] is counted exactly once *)
+Lemma edge_counts_sum : forall (edges xs : list R), (2 <= length edges)%nat ->
+  (forall x, In x xs -> hd 0 edges <= x <= last edges 0) ->
+  Zsum (edge_counts (A:=RealA) edges xs) = Z.of_nat (length xs).
+Proof.
+  intros edges xs HL H. destruct edges as [|e [|e' r]]; cbn in HL; try lia.
+  unfold edge_counts. rewrite e_cum_hd, e_diffZ_sum, <- e_cum_hd.
+  rewrite e_cum_last by discriminate.
+  rewrite e_count_le_all by (intros x Hx; apply H; auto).
+  rewrite e_count_lt_zero; [lia|]. intros x Hx. apply (H x Hx).
+Qed.
+
+(** monotone cumulative counts for sorted edges *)
+Lemma e_count_lt_mono : forall (e e' : R) (xs : list R), e <= e' -> (count_lt (A:=RealA) e xs <= count_lt (A:=RealA) e' xs)%Z.
+Proof.
+  intros e e' xs H. unfold count_lt. apply Nat2Z.inj_le. apply e_filter_length_le.
+  intros x _. cbn [ltb RealA]. rewrite !Rltb_true. lra.
+Qed.
+Lemma e_count_lt_le_mono : forall (e e' : R) (xs : list R), e <= e' -> (count_lt (A:=RealA) e xs <= count_le (A:=RealA) e' xs)%Z.
+Proof.
+  intros e e' xs H. unfold count_lt, count_le. apply Nat2Z.inj_le. apply e_filter_length_le.
+  intros x _. cbn [ltb leb RealA]. rewrite Rltb_true, Rleb_true. lra.
+Qed.
+
+Lemma e_cum_head_ge : forall (e e' : R) (r xs : list R), e <= e' ->
+  (count_lt (A:=RealA) e xs <= hd 0%Z (cum_counts (A:=RealA) (e' :: r) xs))%Z.
+Proof.
+  intros e e' r xs H. destruct r as [|e'' r'].
+  - cbn. apply e_count_lt_le_mono; auto.
+  - rewrite e_cum_hd. cbn [hd]. apply e_count_lt_mono; auto.
+Qed.
+
+Lemma edge_counts_nonneg : forall (edges xs : list R), Sorted Rle edges ->
+  Forall (fun c => (0 <= c)%Z) (edge_counts (A:=RealA) edges xs).
+Proof.
+  intros edges xs HS. unfold edge_counts. induction HS as [|e r HSr IH Hhd]; [constructor|].
+  destruct r as [|e' r']; [constructor|].
+  rewrite e_cum_hd.
+  assert (Hle : e <= e') by (inversion Hhd; auto).
+  pose proof (e_cum_head_ge e e' r' xs Hle) as Hge.
+  destruct (cum_counts (e' :: r') xs) as [|c cs] eqn:E.
+  - constructor.
+  - cbn [diffZ]. constructor; [cbn in Hge; lia | exact IH].
+Qed.
+
+(** the j-th count is the number of values in [e_j, e_{j+1}) — closed on the right for the last bin *)
+Definition in_bin (edges : list R) (j : nat) (x : R) : bool :=
+  Rleb (nth j edges 0) x &&
+  (if Nat.eqb (S (S j)) (length edges) then Rleb x (nth (S j) edges 0) else Rltb x (nth (S j) edges 0)).
+
+Lemma e_last_bin : forall (e e' : R) (xs : list R), e <= e' ->
+  (count_le (A:=RealA) e' xs - count_lt (A:=RealA) e xs)%Z = Z.of_nat (length (filter (fun x => Rleb e x && Rleb x e') xs)).
+Proof.
+  intros e e' xs H. unfold count_le, count_lt. induction xs as [|x xs IH]; [reflexivity|].
+  cbn [filter]. cbn [ltb leb RealA] in *.
+  destruct (Rleb_spec x e'), (Rltb_spec x e), (Rleb_spec e x); cbn [andb length]; try lra;
+    rewrite ?Nat2Z.inj_succ in *; lia.
+Qed.
+Lemma e_mid_bin : forall (e e' : R) (xs : list R), e <= e' ->
+  (count_lt (A:=RealA) e' xs - count_lt (A:=RealA) e xs)%Z = Z.of_nat (length (filter (fun x => Rleb e x && Rltb x e') xs)).
+Proof.
+  intros e e' xs H. unfold count_lt. induction xs as [|x xs IH]; [reflexivity|].
+  cbn [filter]. cbn [ltb RealA] in *.
+  destruct (Rltb_spec x e'), (Rltb_spec x e), (Rleb_spec e x); cbn [andb length]; try lra;
+    rewrite ?Nat2Z.inj_succ in *; lia.
+Qed.
+
+Lemma e_filter_ext_in : forall {T} (f g : T -> bool) (l : list T), (forall x, In x l -> f x = g x) -> filter f l = filter g l.
+Proof.
+  intros T f g l. induction l as [|x l IH]; intros H; [reflexivity|]. cbn.
+  rewrite (H x (or_introl eq_refl)). rewrite IH; auto. intros y Hy. apply H. right; auto.
+Qed.
+
+Lemma edge_counts_spec : forall (edges xs : list R) (j : nat), Sorted Rle edges -> (S j < length edges)%nat ->
+  nth j (edge_counts (A:=RealA) edges xs) 0%Z = Z.of_nat (length (filter (in_bin edges j) xs)).
+Proof.
+  intros edges xs j HS. revert j. unfold edge_counts.
+  induction HS as [|e r HSr IH Hhd]; intros j Hj; [cbn in Hj; lia|].
+  destruct r as [|e' r']; [cbn in Hj; lia|].
+  assert (Hle : e <= e') by (inversion Hhd; auto).
+  rewrite e_cum_hd.
+  destruct j as [|j].
+  - (* first bin of this suffix *)
+    destruct r' as [|e'' r''].
+    + (* two edges: last bin, closed *)
+      cbn [cum_counts diffZ nth]. rewrite e_last_bin by auto. reflexivity.
+    + rewrite e_cum_hd. cbn [diffZ nth]. rewrite e_mid_bin by auto. reflexivity.
+  - (* later bin: shift *)
+    assert (Hj' : (S j < length (e' :: r'))%nat) by (cbn in *; lia).
+    specialize (IH j Hj').
+    destruct (cum_counts (e' :: r') xs) as [|c cs] eqn:E.
+    { pose proof (e_cum_length (e' :: r') xs) as HL. rewrite E in HL. discriminate. }
+    change (diffZ (count_lt (A:=RealA) e xs :: c :: cs)) with ((c - count_lt (A:=RealA) e xs)%Z :: diffZ (c :: cs)).
+    change (nth (S j) ((c - count_lt (A:=RealA) e xs)%Z :: diffZ (c :: cs)) 0%Z) with (nth j (diffZ (c :: cs)) 0%Z).
+    rewrite IH. reflexivity.
+Qed.
+
+(** ** the pooled edges *)
+Lemma e_sorted_of_nth : forall l : list R, (forall i, (S i < length l)%nat -> nth i l 0 <= nth (S i) l 0) -> Sorted Rle l.
+Proof.
+  induction l as [|x l IH]; intros H; [constructor|]. constructor.
+  - apply IH. intros i Hi. apply (H (S i)). cbn. lia.
+  - destruct l as [|y l]; constructor. apply (H 0%nat). cbn. lia.
+Qed.
+
+Lemma linspace_sorted : forall (a b : R) (n : nat), (1 <= n)%nat -> a <= b -> Sorted Rle (linspace (A:=RealA) a b (S n)).
+Proof.
+  intros a b n Hn Hab. apply e_sorted_of_nth. intros i Hi. rewrite linspace_length in Hi.
+  rewrite !linspace_nth by lia. rewrite S_INR.
+  assert (Hp : 0 < INR n) by (apply lt_0_INR; lia).
+  assert (0 <= (b - a) / INR n) by (apply Rmult_le_pos; [lra | left; apply Rinv_0_lt_compat; auto]).
+  unfold Rdiv in *. nra.
+Qed.
+
+Lemma e_outer_edges : forall lo hi : R, lo <= hi ->
+  let '(a, b) := outer_edges (A:=RealA) lo hi in a < b /\ a <= lo /\ hi <= b.
+Proof.
+  intros lo hi H. unfold outer_edges. cbn [eqb sub add RealA]. unfold half.
+  change (@one RealA) with 1. change (@two RealA) with 2. cbn [div RealA].
+  destruct (Reqb lo hi) eqn:E.
+  - apply Reqb_true in E. subst. lra.
+  - apply Reqb_false in E. lra.
+Qed.
+
+Lemma hist_edges_props : forall (lo hi : R) (nb : nat), (1 <= nb)%nat -> lo <= hi ->
+  Sorted Rle (hist_edges (A:=RealA) lo hi nb) /\ length (hist_edges (A:=RealA) lo hi nb) = S nb /\
+  hd 0 (hist_edges (A:=RealA) lo hi nb) <= lo /\ hi <= last (hist_edges (A:=RealA) lo hi nb) 0.
+Proof.
+  intros lo hi nb Hnb H. unfold hist_edges.
+  pose proof (e_outer_edges lo hi H) as Ho. destruct (outer_edges lo hi) as [a b]. destruct Ho as (Hab & Ha & Hb).
+  rewrite linspace_first, linspace_last, linspace_length by auto.
+  repeat split; auto. apply linspace_sorted; auto; lra.
+Qed.
+
+Lemma e_in_pool_l : forall (X Y : list R) (x : R), In x X -> lmin (A:=RealA) (X ++ Y) <= x <= lmax (A:=RealA) (X ++ Y).
+Proof. intros X Y x H. split; [apply lmin_le | apply lmax_ge]; apply in_or_app; auto. Qed.
+Lemma e_in_pool_r : forall (X Y : list R) (x : R), In x Y -> lmin (A:=RealA) (X ++ Y) <= x <= lmax (A:=RealA) (X ++ Y).
+Proof. intros X Y x H. split; [apply lmin_le | apply lmax_ge]; apply in_or_app; auto. Qed.
+
+Lemma e_props_dist : forall (edges xs : list R) (lo hi : R), xs <> [] -> Sorted Rle edges -> (2 <= length edges)%nat ->
+  hd 0 edges <= lo -> hi <= last edges 0 -> (forall x, In x xs -> lo <= x <= hi) ->
+  isdist (proportions (A:=RealA) (edge_counts (A:=RealA) edges xs) (length xs)).
+Proof.
+  intros edges xs lo hi Hne HS HL Hlo Hhi Hin. apply proportions_isdist.
+  - destruct xs; [congruence | cbn; lia].
+  - apply edge_counts_nonneg; auto.
+  - apply edge_counts_sum; auto. intros x Hx. specialize (Hin x Hx). lra.
+Qed.
+
+(** both proportion vectors of [_calculate_bins_values] are probability vectors of length [nb] *)
+Lemma bins_values_dist : forall (nb : nat) (X Y : list R), (1 <= nb)%nat -> X <> [] -> Y <> [] ->
+  isdist (fst (bins_values (A:=RealA) X Y nb)) /\ isdist (snd (bins_values (A:=RealA) X Y nb)) /\
+  length (fst (bins_values (A:=RealA) X Y nb)) = nb /\ length (snd (bins_values (A:=RealA) X Y nb)) = nb.
+Proof.
+  intros nb X Y Hnb HX HY. unfold bins_values, pooled_edges. cbn [fst snd].
+  assert (Hpool : X ++ Y <> []) by (destruct X; [congruence | discriminate]).
+  pose proof (hist_edges_props (lmin (X ++ Y)) (lmax (X ++ Y)) nb Hnb (lmin_le_lmax _ Hpool)) as (HS & HL & Hlo & Hhi).
+  split; [|split; [|split]].
+  - apply (e_props_dist _ _ (lmin (X ++ Y)) (lmax (X ++ Y))); auto; [exact (eq_ind_r (fun n => (2 <= n)%nat) (ltac:(lia) : (2 <= S nb)%nat) HL)|]. intros x Hx. apply e_in_pool_l; auto.
+  - apply (e_props_dist _ _ (lmin (X ++ Y)) (lmax (X ++ Y))); auto; [exact (eq_ind_r (fun n => (2 <= n)%nat) (ltac:(lia) : (2 <= S nb)%nat) HL)|]. intros x Hx. apply e_in_pool_r; auto.
+  - rewrite proportions_length, edge_counts_length. change (num RealA) with R in *. rewrite HL. reflexivity.
+  - rewrite proportions_length, edge_counts_length. change (num RealA) with R in *. rewrite HL. reflexivity.
+Qed.
+
+Lemma bins_values_perm : forall (nb : nat) (X X' Y Y' : list R), Permutation X X' -> Permutation Y Y' ->
+  bins_values (A:=RealA) X Y nb = bins_values (A:=RealA) X' Y' nb.
+Proof.
+  intros nb X X' Y Y' HX HY. unfold bins_values, pooled_edges.
+  assert (HP : Permutation (X ++ Y) (X' ++ Y')) by (apply Permutation_app; auto).
+  change (num RealA) with R in *.
+  rewrite (lmin_perm _ _ HP), (lmax_perm _ _ HP).
+  rewrite (Permutation_length HX), (Permutation_length HY).
+  f_equal; f_equal; apply edge_counts_perm; auto.
+Qed.
+
+Lemma bins_values_swap : forall (nb : nat) (X Y : list R),
+  bins_values (A:=RealA) Y X nb = (snd (bins_values (A:=RealA) X Y nb), fst (bins_values (A:=RealA) X Y nb)).
+Proof.
+  intros nb X Y. unfold bins_values, pooled_edges. cbn [fst snd].
+  change (num RealA) with R in *.
+  rewrite (lmin_perm _ _ (Permutation_app_comm Y X)), (lmax_perm _ _ (Permutation_app_comm Y X)).
+  reflexivity.
+Qed.
+
+Lemma bins_values_self : forall (nb : nat) (X : list R),
+  fst (bins_values (A:=RealA) X X nb) = snd (bins_values (A:=RealA) X X nb).
+Proof. reflexivity. Qed.
+
+(** * Part V1 -- ranges, identity and symmetry of the distances on two proportion vectors *)
+
+(** ** generic facts about sums over [map2] *)
+
+Lemma v1_map2_diag : forall (f : R -> R -> R) (p : list R), map2 f p p = map (fun x => f x x) p.
+Proof.
+  intros f p. induction p as [|x p IH]; cbn [map2 map]; [reflexivity|].
+  rewrite IH. reflexivity.
+Qed.
+
+Lemma v1_map2_sym_P : forall (P : R -> Prop) (f : R -> R -> R) (p q : list R),
+  (forall x y : R, P x -> P y -> f x y = f y x) -> Forall P p -> Forall P q -> map2 f p q = map2 f q p.
+Proof.
+  intros P f p q Hf Hp. revert q. induction Hp as [|x p Hx Hp IH]; intros q Hq.
+  - destruct q; reflexivity.
+  - destruct Hq as [|y q Hy Hq]; cbn [map2]; [reflexivity|].
+    rewrite (Hf x y Hx Hy), (IH q Hq). reflexivity.
+Qed.
+
+Lemma v1_sumA_map2_pos : forall (P Q : R -> Prop) (f : R -> R -> R) (p q : list R),
+  (forall x y : R, P x -> Q y -> 0 <= f x y) -> Forall P p -> Forall Q q ->
+  0 <= sumA (A:=RealA) (map2 f p q).
+Proof.
+  intros P Q f p q Hf Hp. revert q. induction Hp as [|x p Hx Hp IH]; intros q Hq.
+  - cbn [map2]. sumA0. lra.
+  - destruct Hq as [|y q Hy Hq]; cbn [map2].
+    + sumA0. lra.
+    + rewrite sumA_cons. specialize (IH q Hq). specialize (Hf x y Hx Hy). lra.
+Qed.
+
+Lemma v1_sumA_map2_le_add : forall (c : R) (f : R -> R -> R) (p q : list R), 0 <= c ->
+  (forall x y : R, 0 <= x -> 0 <= y -> f x y <= c * (x + y)) -> nonneg p -> nonneg q ->
+  sumA (A:=RealA) (map2 f p q) <= c * (sumA (A:=RealA) p + sumA (A:=RealA) q).
+Proof.
+  intros c f p q Hc Hf Hp. revert q. induction Hp as [|x p Hx Hp IH]; intros q Hq.
+  - cbn [map2]. sumA0. pose proof (sumA_nonneg q Hq) as Hs.
+    apply Rmult_le_pos; lra.
+  - destruct Hq as [|y q Hy Hq]; cbn [map2].
+    + sumA0. pose proof (sumA_nonneg (x :: p) (Forall_cons x Hx Hp)) as Hs.
+      apply Rmult_le_pos; lra.
+    + rewrite !sumA_cons. specialize (IH q Hq). specialize (Hf x y Hx Hy).
+      rewrite Rmult_plus_distr_l in *.
+      replace (c * (x + sumA (A:=RealA) p) + c * (y + sumA (A:=RealA) q))
+        with ((c * x + c * y) + (c * sumA (A:=RealA) p + c * sumA (A:=RealA) q)) by ring.
+      lra.
+Qed.
+
+Lemma v1_sumA_map2_le_fst : forall (f : R -> R -> R) (p q : list R),
+  (forall x y : R, f x y <= x) -> nonneg p ->
+  sumA (A:=RealA) (map2 f p q) <= sumA (A:=RealA) p.
+Proof.
+  intros f p q Hf Hp. revert q. induction Hp as [|x p Hx Hp IH]; intros q.
+  - cbn [map2]. sumA0. lra.
+  - destruct q as [|y q]; cbn [map2].
+    + sumA0. apply sumA_nonneg. constructor; assumption.
+    + rewrite !sumA_cons. specialize (IH q). specialize (Hf x y). lra.
+Qed.
+
+Lemma v1_sumA_map_zero : forall (g : R -> R) (l : list R), (forall x : R, g x = 0) ->
+  sumA (A:=RealA) (map g l) = 0.
+Proof.
+  intros g l Hg. induction l as [|x l IH]; cbn [map]; [sumA0; reflexivity|].
+  rewrite sumA_cons, IH, Hg. lra.
+Qed.
+
+Lemma v1_sumA_map_id : forall (g : R -> R) (l : list R), nonneg l ->
+  (forall x : R, 0 <= x -> g x = x) -> sumA (A:=RealA) (map g l) = sumA (A:=RealA) l.
+Proof.
+  intros g l Hl Hg. induction Hl as [|x l Hx Hl IH]; cbn [map]; [reflexivity|].
+  rewrite !sumA_cons, IH, (Hg x Hx). reflexivity.
+Qed.
+
+(** ** Hellinger *)
+
+Lemma v1_hell_term_nonneg : forall x y : R, 0 <= (R_sqrt.sqrt x - R_sqrt.sqrt y) * (R_sqrt.sqrt x - R_sqrt.sqrt y).
+Proof. intros x y. pose proof (Rle_0_sqr (R_sqrt.sqrt x - R_sqrt.sqrt y)) as H. unfold Rsqr in H. exact H. Qed.
+
+Lemma v1_hell_term_le : forall x y : R, 0 <= x -> 0 <= y ->
+  (R_sqrt.sqrt x - R_sqrt.sqrt y) * (R_sqrt.sqrt x - R_sqrt.sqrt y) <= 1 * (x + y).
+Proof.
+  intros x y Hx Hy.
+  pose proof (sqrt_sqrt x Hx) as Ex. pose proof (sqrt_sqrt y Hy) as Ey.
+  pose proof (sqrt_pos x) as Px. pose proof (sqrt_pos y) as Py.
+  pose proof (Rmult_le_pos _ _ Px Py) as Pxy.
+  replace ((R_sqrt.sqrt x - R_sqrt.sqrt y) * (R_sqrt.sqrt x - R_sqrt.sqrt y))
+    with (R_sqrt.sqrt x * R_sqrt.sqrt x + R_sqrt.sqrt y * R_sqrt.sqrt y - 2 * (R_sqrt.sqrt x * R_sqrt.sqrt y)) by ring.
+  rewrite Ex, Ey. lra.
+Qed.
+
+Lemma v1_sqrt2_pos : 0 < R_sqrt.sqrt 2.
+Proof. apply sqrt_lt_R0. lra. Qed.
+
+Lemma hellinger_nonneg : forall p q : list R, 0 <= hellinger_f (A:=RealA) p q.
+Proof.
+  intros p q. unfold hellinger_f. cbn [div sqrt RealA]. change (@two RealA) with 2.
+  unfold Rdiv. apply Rmult_le_pos; [apply sqrt_pos|].
+  left. apply Rinv_0_lt_compat. exact v1_sqrt2_pos.
+Qed.
+
+Lemma hellinger_self : forall p : list R, hellinger_f (A:=RealA) p p = 0.
+Proof.
+  intros p. unfold hellinger_f, sumA2. rewrite v1_map2_diag.
+  rewrite v1_sumA_map_zero.
+  - cbn [div sqrt RealA]. rewrite sqrt_0. unfold Rdiv. apply Rmult_0_l.
+  - intros x. unfold sqr. cbn [mul sub sqrt RealA]. ring.
+Qed.
+
+Lemma hellinger_sym : forall p q : list R, hellinger_f (A:=RealA) p q = hellinger_f (A:=RealA) q p.
+Proof.
+  intros p q. unfold hellinger_f, sumA2. f_equal. f_equal. f_equal.
+  apply map2_sym. intros a b. unfold sqr. cbn [mul sub sqrt RealA]. eqR. ring.
+Qed.
+
+Lemma hellinger_le1 : forall p q : list R, isdist p -> isdist q -> hellinger_f (A:=RealA) p q <= 1.
+Proof.
+  intros p q [Hp Sp] [Hq Sq]. unfold hellinger_f, sumA2.
+  cbn [div sqrt RealA]. change (@two RealA) with 2.
+  pose proof v1_sqrt2_pos as H2.
+  apply (Rmult_le_reg_r (R_sqrt.sqrt 2)); [exact H2|].
+  unfold Rdiv. rewrite Rmult_assoc, Rinv_l by lra. rewrite Rmult_1_r, Rmult_1_l.
+  apply sqrt_le_1_alt.
+  eapply Rle_trans; [apply (v1_sumA_map2_le_add 1); [lra| |exact Hp|exact Hq] | rewrite Sp, Sq; lra].
+  intros x y Hx Hy. unfold sqr. cbn [mul sub sqrt RealA]. apply v1_hell_term_le; assumption.
+Qed.
+
+(** ** Bhattacharyya *)
+
+Lemma v1_amgm : forall x y : R, 0 <= x -> 0 <= y -> R_sqrt.sqrt (x * y) <= / 2 * (x + y).
+Proof.
+  intros x y Hx Hy. rewrite sqrt_mult by assumption.
+  pose proof (v1_hell_term_nonneg x y) as H.
+  pose proof (sqrt_sqrt x Hx) as Ex. pose proof (sqrt_sqrt y Hy) as Ey.
+  replace ((R_sqrt.sqrt x - R_sqrt.sqrt y) * (R_sqrt.sqrt x - R_sqrt.sqrt y))
+    with (R_sqrt.sqrt x * R_sqrt.sqrt x + R_sqrt.sqrt y * R_sqrt.sqrt y - 2 * (R_sqrt.sqrt x * R_sqrt.sqrt y)) in H by ring.
+  rewrite Ex, Ey in H. lra.
+Qed.
+
+Lemma bhattacharyya_nonneg : forall p q : list R, isdist p -> isdist q -> 0 <= bhattacharyya_f (A:=RealA) p q.
+Proof.
+  intros p q [Hp Sp] [Hq Sq]. unfold bhattacharyya_f, sumA2.
+  cbn [sub RealA]. change (@one RealA) with 1.
+  assert (H' : sumA (A:=RealA) (map2 (fun x y : num RealA => sqrt (x * y)%A) p q) <= / 2 * (sumA (A:=RealA) p + sumA (A:=RealA) q)).
+  { apply v1_sumA_map2_le_add; auto; [lra|]. intros x y Hx Hy. cbn [mul sqrt RealA]. apply v1_amgm; assumption. }
+  rewrite Sp, Sq in H'.
+  lra.
+Qed.
+
+Lemma bhattacharyya_le1 : forall p q : list R, nonneg p -> nonneg q -> bhattacharyya_f (A:=RealA) p q <= 1.
+Proof.
+  intros p q Hp Hq. unfold bhattacharyya_f, sumA2.
+  cbn [sub RealA]. change (@one RealA) with 1.
+  assert (H' : 0 <= sumA (A:=RealA) (map2 (fun x y : num RealA => sqrt (x * y)%A) p q)).
+  { apply (v1_sumA_map2_pos (fun x => 0 <= x) (fun x => 0 <= x)); auto.
+    intros x y _ _. cbn [mul sqrt RealA]. apply sqrt_pos. }
+  lra.
+Qed.
+
+Lemma bhattacharyya_self : forall p : list R, isdist p -> bhattacharyya_f (A:=RealA) p p = 0.
+Proof.
+  intros p [Hp Sp]. unfold bhattacharyya_f, sumA2. rewrite v1_map2_diag.
+  rewrite (v1_sumA_map_id _ p Hp).
+  - rewrite Sp. cbn [sub RealA]. change (@one RealA) with 1. lra.
+  - intros x Hx. cbn [mul sqrt RealA]. apply sqrt_square. exact Hx.
+Qed.
+
+Lemma bhattacharyya_sym : forall p q : list R, bhattacharyya_f (A:=RealA) p q = bhattacharyya_f (A:=RealA) q p.
+Proof.
+  intros p q. unfold bhattacharyya_f, sumA2. f_equal. f_equal.
+  apply map2_sym. intros a b. cbn [mul sqrt RealA]. rewrite Rmult_comm. reflexivity.
+Qed.
+
+(** ** histogram-intersection complement *)
+
+Lemma v1_minA_le_l : forall x y : R, minA (A:=RealA) x y <= x.
+Proof. intros x y. unfold minA. cbn [ltb RealA]. destruct (Rltb_spec y x); lra. Qed.
+
+Lemma v1_minA_nonneg : forall x y : R, 0 <= x -> 0 <= y -> 0 <= minA (A:=RealA) x y.
+Proof. intros x y Hx Hy. unfold minA. cbn [ltb RealA]. destruct (Rltb_spec y x); lra. Qed.
+
+Lemma v1_minA_diag : forall x : R, minA (A:=RealA) x x = x.
+Proof. intros x. unfold minA. destruct (ltb x x); reflexivity. Qed.
+
+Lemma v1_minA_comm : forall x y : R, minA (A:=RealA) x y = minA (A:=RealA) y x.
+Proof.
+  intros x y. unfold minA. cbn [ltb RealA].
+  destruct (Rltb_spec y x); destruct (Rltb_spec x y); eqR; lra.
+Qed.
+
+Lemma hi_nonneg : forall p q : list R, isdist p -> isdist q -> 0 <= hi_f (A:=RealA) p q.
+Proof.
+  intros p q [Hp Sp] [Hq Sq]. unfold hi_f, sumA2.
+  cbn [sub RealA]. change (@one RealA) with 1.
+  match goal with |- 0 <= 1 - ?s => assert (H : s <= 1) end.
+  { rewrite <- Sp. apply v1_sumA_map2_le_fst; [exact v1_minA_le_l|exact Hp]. }
+  lra.
+Qed.
+
+Lemma hi_le1 : forall p q : list R, nonneg p -> nonneg q -> hi_f (A:=RealA) p q <= 1.
+Proof.
+  intros p q Hp Hq. unfold hi_f, sumA2.
+  cbn [sub RealA]. change (@one RealA) with 1.
+  match goal with |- 1 - ?s <= 1 => assert (H : 0 <= s) end.
+  { apply (v1_sumA_map2_pos (fun x => 0 <= x) (fun x => 0 <= x)); [exact v1_minA_nonneg|exact Hp|exact Hq]. }
+  lra.
+Qed.
+
+Lemma hi_self : forall p : list R, isdist p -> hi_f (A:=RealA) p p = 0.
+Proof.
+  intros p [Hp Sp]. unfold hi_f, sumA2. rewrite v1_map2_diag.
+  rewrite (v1_sumA_map_id _ p Hp).
+  - rewrite Sp. cbn [sub RealA]. change (@one RealA) with 1. lra.
+  - intros x _. apply v1_minA_diag.
+Qed.
+
+Lemma hi_sym : forall p q : list R, hi_f (A:=RealA) p q = hi_f (A:=RealA) q p.
+Proof.
+  intros p q. unfold hi_f, sumA2. f_equal. f_equal.
+  apply map2_sym. exact v1_minA_comm.
+Qed.
+
+(** ** PSI *)
+
+Lemma v1_floor0_pos : forall (tiny : R) (p : list R), 0 < tiny -> nonneg p ->
+  Forall (fun v : R => 0 < v) (floor0 (A:=RealA) tiny p).
+Proof.
+  intros tiny p Ht Hp. unfold floor0. apply Forall_map.
+  eapply Forall_impl; [|exact Hp]. intros v Hv. cbv beta.
+  cbn [eqb RealA]. change (@zero RealA) with 0.
+  destruct (Reqb v 0) eqn:E; [exact Ht|].
+  apply Reqb_false in E. lra.
+Qed.
+
+Lemma v1_ln_quot : forall x y : R, 0 < x -> 0 < y -> Rpower.ln (y / x) = Rpower.ln y - Rpower.ln x.
+Proof.
+  intros x y Hx Hy. unfold Rdiv.
+  rewrite ln_mult; [|exact Hy|apply Rinv_0_lt_compat; exact Hx].
+  rewrite ln_Rinv by exact Hx. lra.
+Qed.
+
+Lemma v1_psi_term_nonneg : forall x y : R, 0 < x -> 0 < y -> 0 <= (y - x) * Rpower.ln (y / x).
+Proof.
+  intros x y Hx Hy. rewrite v1_ln_quot by assumption.
+  destruct (Rtotal_order x y) as [Hlt|[Heq|Hgt]].
+  - pose proof (ln_increasing x y Hx Hlt) as H.
+    apply Rmult_le_pos; lra.
+  - subst y. replace (x - x) with 0 by lra. rewrite Rmult_0_l. lra.
+  - pose proof (ln_increasing y x Hy Hgt) as H.
+    replace ((y - x) * (Rpower.ln y - Rpower.ln x)) with ((x - y) * (Rpower.ln x - Rpower.ln y)) by ring.
+    apply Rmult_le_pos; lra.
+Qed.
+
+Lemma v1_psi_term_sym : forall x y : R, 0 < x -> 0 < y ->
+  (y - x) * Rpower.ln (y / x) = (x - y) * Rpower.ln (x / y).
+Proof.
+  intros x y Hx Hy. rewrite (v1_ln_quot x y Hx Hy), (v1_ln_quot y x Hy Hx). ring.
+Qed.
+
+Lemma psi_nonneg : forall (tiny : R) (p q : list R), 0 < tiny -> nonneg p -> nonneg q -> 0 <= psi_f (A:=RealA) tiny p q.
+Proof.
+  intros tiny p q Ht Hp Hq. unfold psi_f, sumA2.
+  apply (v1_sumA_map2_pos (fun v : R => 0 < v) (fun v : R => 0 < v)).
+  - intros x y Hx Hy. cbn [mul sub div ln RealA]. apply v1_psi_term_nonneg; assumption.
+  - apply v1_floor0_pos; assumption.
+  - apply v1_floor0_pos; assumption.
+Qed.
+
+Lemma psi_self : forall (tiny : R) (p : list R), psi_f (A:=RealA) tiny p p = 0.
+Proof.
+  intros tiny p. unfold psi_f, sumA2. rewrite v1_map2_diag.
+  apply v1_sumA_map_zero. intros x. cbn [mul sub div ln RealA].
+  replace (x - x) with 0 by lra. apply Rmult_0_l.
+Qed.
+
+Lemma psi_sym : forall (tiny : R) (p q : list R), 0 < tiny -> nonneg p -> nonneg q -> psi_f (A:=RealA) tiny p q = psi_f (A:=RealA) tiny q p.
+Proof.
+  intros tiny p q Ht Hp Hq. unfold psi_f, sumA2. f_equal.
+  apply (v1_map2_sym_P (fun v : R => 0 < v)).
+  - intros x y Hx Hy. cbn [mul sub div ln RealA]. apply v1_psi_term_sym; assumption.
+  - apply v1_floor0_pos; assumption.
+  - apply v1_floor0_pos; assumption.
+Qed.
+
+(** * Part V2 — KL divergence and Jensen-Shannon distance on two mass vectors *)
+
+(** ** [xadd] / [xsum] over R *)
+Lemma v2_xadd_assoc : forall a b c : xnum (A:=RealA), xadd (xadd a b) c = xadd a (xadd b c).
+Proof.
+  intros [u| |] [v| |] [w| |]; cbn [xadd]; try reflexivity.
+  f_equal. cbn [add RealA]. eqR. ring.
+Qed.
+
+Lemma v2_xadd_comm : forall a b : xnum (A:=RealA), xadd a b = xadd b a.
+Proof.
+  intros [u| |] [v| |]; cbn [xadd]; try reflexivity.
+  f_equal. cbn [add RealA]. eqR. ring.
+Qed.
+
+Lemma v2_fold_xadd : forall (l : list (xnum (A:=RealA))) (a b : xnum (A:=RealA)),
+  fold_left xadd l (xadd a b) = xadd a (fold_left xadd l b).
+Proof.
+  induction l as [|c l IH]; intros a b; cbn [fold_left]; [reflexivity|].
+  rewrite v2_xadd_assoc. apply IH.
+Qed.
+
+Lemma v2_xsum_nil : xsum (A:=RealA) [] = Fin 0.
+Proof. reflexivity. Qed.
+
+Lemma v2_xsum_cons : forall (x : xnum (A:=RealA)) (l : list (xnum (A:=RealA))),
+  xsum (x :: l) = xadd x (xsum l).
+Proof.
+  intros x l. unfold xsum. cbn [fold_left].
+  rewrite (v2_xadd_comm (Fin zero) x). apply v2_fold_xadd.
+Qed.
+
+Lemma v2_xadd_not_nan : forall a b : xnum (A:=RealA), a <> NaN -> b <> NaN -> xadd a b <> NaN.
+Proof. intros [u| |] [v| |] Ha Hb; cbn [xadd]; congruence. Qed.
+
+Lemma v2_xadd_fin_inv : forall (a b : xnum (A:=RealA)) (v : R), xadd a b = Fin v ->
+  exists u w : R, a = Fin u /\ b = Fin w /\ v = u + w.
+Proof.
+  intros [u| |] [w| |] v H; cbn [xadd] in H; try discriminate.
+  exists u, w. injection H as H. cbn [add RealA] in H. auto.
+Qed.
+
+Lemma v2_xadd_pinf : forall a b : xnum (A:=RealA), a <> NaN -> b <> NaN ->
+  (xadd a b = PInf <-> a = PInf \/ b = PInf).
+Proof.
+  intros [u| |] [v| |] Ha Hb; cbn [xadd]; split; intro H; try congruence; auto;
+    destruct H; congruence.
+Qed.
+
+(** ** [rel_entr] over R *)
+Lemma v2_rel_entr_pos : forall x y : R, 0 < x -> 0 < y ->
+  rel_entr (A:=RealA) x y = Fin (x * Rpower.ln (x / y)).
+Proof.
+  intros x y Hx Hy. unfold rel_entr. cbn [ltb leb eqb mul div ln RealA].
+  change (@zero RealA) with 0.
+  rewrite (proj2 (Rltb_true 0 x) Hx), (proj2 (Rltb_true 0 y) Hy). reflexivity.
+Qed.
+
+Lemma v2_rel_entr_zero : forall y : R, 0 <= y -> rel_entr (A:=RealA) 0 y = Fin 0.
+Proof.
+  intros y Hy. unfold rel_entr. cbn [ltb leb eqb mul div ln RealA].
+  change (@zero RealA) with 0.
+  rewrite (proj2 (Rltb_false 0 0)) by lra. cbn [andb].
+  rewrite (proj2 (Reqb_true 0 0) eq_refl), (proj2 (Rleb_true 0 y) Hy). reflexivity.
+Qed.
+
+Lemma v2_rel_entr_inf : forall x : R, 0 < x -> rel_entr (A:=RealA) x 0 = PInf.
+Proof.
+  intros x Hx. unfold rel_entr. cbn [ltb leb eqb mul div ln RealA].
+  change (@zero RealA) with 0.
+  rewrite (proj2 (Rltb_true 0 x) Hx), (proj2 (Rltb_false 0 0)) by lra. cbn [andb].
+  rewrite (proj2 (Reqb_false x 0)) by lra. reflexivity.
+Qed.
+
+Lemma v2_rel_entr_not_nan : forall x y : R, rel_entr (A:=RealA) x y <> NaN.
+Proof.
+  intros x y. unfold rel_entr.
+  destruct (_ && _); [discriminate|]. destruct (_ && _); discriminate.
+Qed.
+
+Lemma v2_rel_entr_cases : forall x y : R, 0 <= x -> 0 <= y ->
+  (0 < x /\ 0 < y /\ rel_entr (A:=RealA) x y = Fin (x * Rpower.ln (x / y))) \/
+  (x = 0 /\ rel_entr (A:=RealA) x y = Fin 0) \/
+  (0 < x /\ y = 0 /\ rel_entr (A:=RealA) x y = PInf).
+Proof.
+  intros x y Hx Hy.
+  destruct (Rle_lt_or_eq_dec 0 x Hx) as [Hxp|Hx0].
+  - destruct (Rle_lt_or_eq_dec 0 y Hy) as [Hyp|Hy0].
+    + left. auto using v2_rel_entr_pos.
+    + right; right. subst y. auto using v2_rel_entr_inf.
+  - right; left. subst x. auto using v2_rel_entr_zero.
+Qed.
+
+Lemma v2_rel_entr_pinf_iff : forall x y : R, 0 <= x -> 0 <= y ->
+  (rel_entr (A:=RealA) x y = PInf <-> 0 < x /\ y = 0).
+Proof.
+  intros x y Hx Hy.
+  destruct (v2_rel_entr_cases x y Hx Hy) as [(H1 & H2 & H3)|[(H1 & H3)|(H1 & H2 & H3)]];
+    rewrite H3; split; intro H; try discriminate; auto; destruct H; lra.
+Qed.
+
+Lemma v2_xsum_re_not_nan : forall q p : list R, xsum (map2 (rel_entr (A:=RealA)) q p) <> NaN.
+Proof.
+  induction q as [|x q IH]; intros [|y p]; cbn [map2]; try (rewrite v2_xsum_nil; discriminate).
+  rewrite v2_xsum_cons. apply v2_xadd_not_nan; [apply v2_rel_entr_not_nan | apply IH].
+Qed.
+
+(** ** Gibbs' inequality, termwise *)
+Lemma v2_ln_le_sub1 : forall t : R, 0 < t -> Rpower.ln t <= t - 1.
+Proof.
+  intros t Ht. pose proof (exp_ineq1_le (Rpower.ln t)) as H.
+  rewrite exp_ln in H by exact Ht. lra.
+Qed.
+
+Lemma v2_ln_le : forall a b : R, 0 < a -> a <= b -> Rpower.ln a <= Rpower.ln b.
+Proof.
+  intros a b Ha [Hlt|Heq].
+  - left. apply ln_increasing; assumption.
+  - subst. lra.
+Qed.
+
+Lemma v2_gibbs : forall x y : R, 0 < x -> 0 < y -> x - y <= x * Rpower.ln (x / y).
+Proof.
+  intros x y Hx Hy.
+  assert (Ht : 0 < y / x) by (apply Rdiv_lt_0_compat; assumption).
+  replace (x / y) with (/ (y / x)) by (field; lra).
+  rewrite ln_Rinv by exact Ht.
+  pose proof (v2_ln_le_sub1 (y / x) Ht) as HL.
+  pose proof (Rmult_le_compat_l x _ _ (Rlt_le _ _ Hx) HL) as HM.
+  replace (x * (y / x - 1)) with (y - x) in HM by (field; lra).
+  lra.
+Qed.
+
+Definition v2_avg (x y : R) : R := (x + y) / 2.
+
+Lemma v2_ln_ub : forall x y : R, 0 < x -> 0 <= y ->
+  x * Rpower.ln (x / v2_avg x y) <= x * Rpower.ln 2.
+Proof.
+  intros x y Hx Hy. unfold v2_avg.
+  apply Rmult_le_compat_l; [lra|].
+  apply v2_ln_le.
+  - apply Rdiv_lt_0_compat; lra.
+  - apply Rmult_le_reg_r with ((x + y) / 2); [lra|].
+    replace (x / ((x + y) / 2) * ((x + y) / 2)) with x by (field; lra). lra.
+Qed.
+
+(** ** KL *)
+Lemma v2_kl_self_aux : forall P : list R, nonneg P -> xsum (map2 (rel_entr (A:=RealA)) P P) = Fin 0.
+Proof.
+  induction 1 as [|x P Hx HP IH]; [reflexivity|].
+  cbn [map2]. rewrite v2_xsum_cons, IH.
+  destruct (Rle_lt_or_eq_dec 0 x Hx) as [Hxp|Hx0].
+  - rewrite v2_rel_entr_pos by assumption. cbn [xadd]. f_equal. cbn [add RealA].
+    replace (x / x) with 1 by (field; lra). rewrite ln_1. eqR. ring.
+  - subst x. rewrite v2_rel_entr_zero by lra. cbn [xadd]. f_equal. cbn [add RealA]. eqR. ring.
+Qed.
+
+Lemma kl_self : forall P : list R, nonneg P -> kl_f (A:=RealA) P P = Fin 0.
+Proof. intros P HP. unfold kl_f. apply v2_kl_self_aux; assumption. Qed.
+
+Lemma v2_kl_lower_aux : forall q p : list R, nonneg q -> nonneg p -> length q = length p ->
+  forall v : R, xsum (map2 (rel_entr (A:=RealA)) q p) = Fin v ->
+  sumA (A:=RealA) q - sumA (A:=RealA) p <= v.
+Proof.
+  induction q as [|x q IH]; intros [|y p] Hq Hp HL v Hv; try discriminate.
+  - cbn [map2] in Hv. rewrite v2_xsum_nil in Hv. injection Hv as Hv.
+    sumA0. change (num RealA) with R in *. lra.
+  - cbn [map2] in Hv. rewrite v2_xsum_cons in Hv.
+    apply v2_xadd_fin_inv in Hv. destruct Hv as (u & w & Hu & Hw & ->).
+    inversion Hq as [|? ? Hx Hq']; subst. inversion Hp as [|? ? Hy Hp']; subst.
+    cbn [length] in HL. injection HL as HL.
+    specialize (IH p Hq' Hp' HL w Hw).
+    rewrite !sumA_cons.
+    destruct (v2_rel_entr_cases x y Hx Hy) as [(H1 & H2 & H3)|[(H1 & H3)|(H1 & H2 & H3)]];
+      rewrite H3 in Hu; try discriminate; injection Hu as Hu;
+      change (num RealA) with R in *; subst u.
+    + pose proof (v2_gibbs x y H1 H2). lra.
+    + lra.
+Qed.
+
+Lemma kl_lower : forall Pref Qtest : list R, nonneg Pref -> nonneg Qtest -> length Pref = length Qtest ->
+  forall v : R, kl_f (A:=RealA) Pref Qtest = Fin v -> sumA (A:=RealA) Qtest - sumA (A:=RealA) Pref <= v.
+Proof.
+  intros Pref Qtest HP HQ HL v Hv. unfold kl_f in Hv.
+  apply v2_kl_lower_aux; auto.
+Qed.
+
+Lemma kl_not_nan : forall Pref Qtest : list R, kl_f (A:=RealA) Pref Qtest <> NaN.
+Proof. intros Pref Qtest. unfold kl_f. apply v2_xsum_re_not_nan. Qed.
+
+Lemma kl_nonneg : forall Pref Qtest : list R, nonneg Pref -> nonneg Qtest -> length Pref = length Qtest ->
+  sumA (A:=RealA) Pref <= sumA (A:=RealA) Qtest ->
+  kl_f (A:=RealA) Pref Qtest = PInf \/ exists v : R, kl_f (A:=RealA) Pref Qtest = Fin v /\ 0 <= v.
+Proof.
+  intros Pref Qtest HP HQ HL Hs.
+  destruct (kl_f (A:=RealA) Pref Qtest) as [v| |] eqn:E.
+  - right. exists v. split; [reflexivity|].
+    pose proof (kl_lower Pref Qtest HP HQ HL v E). lra.
+  - left; reflexivity.
+  - exfalso. exact (kl_not_nan Pref Qtest E).
+Qed.
+
+Lemma v2_kl_inf_aux : forall q p : list R, nonneg q -> nonneg p ->
+  (xsum (map2 (rel_entr (A:=RealA)) q p) = PInf <->
+   exists i : nat, (i < length p)%nat /\ (i < length q)%nat /\ 0 < nth i q 0 /\ nth i p 0 = 0).
+Proof.
+  induction q as [|x q IH]; intros [|y p] Hq Hp; cbn [map2].
+  - rewrite v2_xsum_nil. split; [discriminate|]. intros (i & H1 & _). cbn in H1. lia.
+  - rewrite v2_xsum_nil. split; [discriminate|]. intros (i & _ & H1 & _). cbn in H1. lia.
+  - rewrite v2_xsum_nil. split; [discriminate|]. intros (i & H1 & _). cbn in H1. lia.
+  - inversion Hq as [|? ? Hx Hq']; subst. inversion Hp as [|? ? Hy Hp']; subst.
+    rewrite v2_xsum_cons.
+    rewrite v2_xadd_pinf by (apply v2_rel_entr_not_nan || apply v2_xsum_re_not_nan).
+    rewrite (v2_rel_entr_pinf_iff x y Hx Hy). rewrite (IH p Hq' Hp').
+    split.
+    + intros [(H1 & H2)|(i & H1 & H2 & H3 & H4)].
+      * exists 0%nat. cbn [length nth]. repeat split; try lia; assumption.
+      * exists (S i). cbn [length nth]. repeat split; try lia; assumption.
+    + intros ([|i] & H1 & H2 & H3 & H4); cbn [length nth] in *.
+      * left. split; assumption.
+      * right. exists i. repeat split; try lia; assumption.
+Qed.
+
+Lemma kl_inf_iff : forall Pref Qtest : list R, nonneg Pref -> nonneg Qtest ->
+  (kl_f (A:=RealA) Pref Qtest = PInf <->
+   exists i : nat, (i < length Pref)%nat /\ (i < length Qtest)%nat /\ 0 < nth i Qtest 0 /\ nth i Pref 0 = 0).
+Proof.
+  intros Pref Qtest HP HQ. unfold kl_f. apply v2_kl_inf_aux; assumption.
+Qed.
+
+(** ** Jensen-Shannon *)
+Lemma v2_avg_map2_sym : forall p q : list R, map2 v2_avg p q = map2 v2_avg q p.
+Proof.
+  intros p q. apply map2_sym. intros a b. unfold v2_avg. f_equal. apply Rplus_comm.
+Qed.
+
+Lemma v2_avg_nonneg : forall p q : list R, nonneg p -> nonneg q -> nonneg (map2 v2_avg p q).
+Proof.
+  induction p as [|x p IH]; intros [|y q] Hp Hq; cbn [map2]; try constructor.
+  - inversion Hp; inversion Hq; subst. unfold v2_avg. lra.
+  - inversion Hp; inversion Hq; subst. apply IH; assumption.
+Qed.
+
+Lemma v2_sum_avg : forall p q : list R, length p = length q ->
+  sumA (A:=RealA) (map2 v2_avg p q) = (sumA (A:=RealA) p + sumA (A:=RealA) q) / 2.
+Proof.
+  induction p as [|x p IH]; intros [|y q] HL; try discriminate; cbn [map2].
+  - sumA0. lra.
+  - cbn [length] in HL. injection HL as HL. rewrite !sumA_cons, (IH q HL). unfold v2_avg. lra.
+Qed.
+
+(** one of the two halves: finite, bounded below by Gibbs and above by [ln 2] per unit of mass *)
+Lemma v2_js_half : forall p q : list R, nonneg p -> nonneg q -> length p = length q ->
+  exists a : R, xsum (map2 (rel_entr (A:=RealA)) p (map2 v2_avg p q)) = Fin a /\
+    sumA (A:=RealA) p - sumA (A:=RealA) (map2 v2_avg p q) <= a /\
+    a <= sumA (A:=RealA) p * Rpower.ln 2.
+Proof.
+  induction p as [|x p IH]; intros [|y q] Hp Hq HL; try discriminate.
+  - exists 0. cbn [map2]. rewrite v2_xsum_nil. sumA0. split; [reflexivity|]. lra.
+  - inversion Hp as [|? ? Hx Hp']; subst. inversion Hq as [|? ? Hy Hq']; subst.
+    cbn [length] in HL. injection HL as HL.
+    destruct (IH q Hp' Hq' HL) as (a & Ha & Hlo & Hhi).
+    cbn [map2]. rewrite v2_xsum_cons, Ha, !sumA_cons.
+    destruct (Rle_lt_or_eq_dec 0 x Hx) as [Hxp|Hx0].
+    + assert (Hm : 0 < v2_avg x y) by (unfold v2_avg; lra).
+      rewrite v2_rel_entr_pos by assumption. cbn [xadd add RealA].
+      exists (x * Rpower.ln (x / v2_avg x y) + a). split; [reflexivity|].
+      pose proof (v2_gibbs x (v2_avg x y) Hxp Hm).
+      pose proof (v2_ln_ub x y Hxp Hy). lra.
+    + subst x. assert (Hm : 0 <= v2_avg 0 y) by (unfold v2_avg; lra).
+      rewrite v2_rel_entr_zero by assumption. cbn [xadd add RealA].
+      exists (0 + a). split; [reflexivity|]. lra.
+Qed.
+
+Lemma v2_js_self_aux : forall p : list R, nonneg p ->
+  xsum (map2 (rel_entr (A:=RealA)) p (map2 v2_avg p p)) = Fin 0.
+Proof.
+  induction 1 as [|x p Hx Hp IH]; [reflexivity|].
+  cbn [map2]. rewrite v2_xsum_cons, IH.
+  destruct (Rle_lt_or_eq_dec 0 x Hx) as [Hxp|Hx0].
+  - assert (Hm : 0 < v2_avg x x) by (unfold v2_avg; lra).
+    rewrite v2_rel_entr_pos by assumption. cbn [xadd]. f_equal. cbn [add RealA].
+    replace (x / v2_avg x x) with 1 by (unfold v2_avg; field; lra). rewrite ln_1. eqR. ring.
+  - subst x. assert (Hm : 0 <= v2_avg 0 0) by (unfold v2_avg; lra).
+    rewrite v2_rel_entr_zero by assumption. cbn [xadd]. f_equal. cbn [add RealA]. eqR. ring.
+Qed.
+
+(** normalisation by the total *)
+Definition v2_norm (s : R) (P : list R) : list R := map (fun v : R => v / s) P.
+
+Lemma v2_norm_length : forall (s : R) (P : list R), length (v2_norm s P) = length P.
+Proof. intros. unfold v2_norm. apply map_length. Qed.
+
+Lemma v2_norm_nonneg : forall (s : R) (P : list R), 0 < s -> nonneg P -> nonneg (v2_norm s P).
+Proof.
+  intros s P Hs HP. unfold v2_norm, nonneg. apply Forall_map.
+  eapply Forall_impl; [|exact HP]. intros x Hx. cbv beta.
+  apply Rmult_le_pos; [exact Hx | left; apply Rinv_0_lt_compat; exact Hs].
+Qed.
+
+Lemma v2_norm_sum : forall (s : R) (P : list R), sumA (A:=RealA) (v2_norm s P) = sumA (A:=RealA) P / s.
+Proof.
+  intros s P. unfold v2_norm. induction P as [|x P IH]; cbn [map].
+  - sumA0. unfold Rdiv. rewrite Rmult_0_l. reflexivity.
+  - rewrite !sumA_cons, IH. unfold Rdiv. eqR. ring.
+Qed.
+
+Lemma v2_norm_sum1 : forall P : list R, 0 < sumA (A:=RealA) P ->
+  sumA (A:=RealA) (v2_norm (sumA (A:=RealA) P) P) = 1.
+Proof. intros P HP. rewrite v2_norm_sum. eqR. field. change (num RealA) with R in *. lra. Qed.
+
+(** [js_f] with the guards resolved *)
+Definition v2_js_body (p q : list R) : xnum (A:=RealA) :=
+  match xadd (xsum (map2 (rel_entr (A:=RealA)) p (map2 v2_avg p q)))
+             (xsum (map2 (rel_entr (A:=RealA)) q (map2 v2_avg p q))) with
+  | Fin v => Fin (R_sqrt.sqrt (v / 2))
+  | o => o
+  end.
+
+Lemma v2_js_unfold : forall P Q : list R,
+  js_f (A:=RealA) P Q =
+  if Reqb (sumA (A:=RealA) P) 0 then NaN
+  else if Reqb (sumA (A:=RealA) Q) 0 then NaN
+  else v2_js_body (v2_norm (sumA (A:=RealA) P) P) (v2_norm (sumA (A:=RealA) Q) Q).
+Proof. intros P Q. reflexivity. Qed.
+
+Lemma v2_js_body_sym : forall p q : list R, v2_js_body p q = v2_js_body q p.
+Proof.
+  intros p q. unfold v2_js_body. rewrite (v2_avg_map2_sym q p).
+  rewrite v2_xadd_comm. reflexivity.
+Qed.
+
+Lemma v2_js_body_not_nan : forall p q : list R, v2_js_body p q <> NaN.
+Proof.
+  intros p q. unfold v2_js_body.
+  pose proof (v2_xadd_not_nan _ _ (v2_xsum_re_not_nan p (map2 v2_avg p q))
+                (v2_xsum_re_not_nan q (map2 v2_avg p q))) as H.
+  destruct (xadd _ _); [discriminate | discriminate | exact H].
+Qed.
+
+Lemma js_sym : forall P Q : list R, js_f (A:=RealA) P Q = js_f (A:=RealA) Q P.
+Proof.
+  intros P Q. rewrite !v2_js_unfold.
+  destruct (Reqb (sumA (A:=RealA) P) 0), (Reqb (sumA (A:=RealA) Q) 0); try reflexivity.
+  apply v2_js_body_sym.
+Qed.
+
+Lemma js_self : forall P : list R, nonneg P -> 0 < sumA (A:=RealA) P -> js_f (A:=RealA) P P = Fin 0.
+Proof.
+  intros P HP Hs. rewrite v2_js_unfold.
+  rewrite (proj2 (Reqb_false (sumA (A:=RealA) P) 0)) by lra.
+  unfold v2_js_body.
+  rewrite v2_js_self_aux by (apply v2_norm_nonneg; assumption).
+  cbn [xadd add RealA]. f_equal.
+  replace ((0 + 0) / 2) with 0 by field. apply sqrt_0.
+Qed.
+
+Lemma js_nan_iff : forall P Q : list R, nonneg P -> nonneg Q ->
+  (js_f (A:=RealA) P Q = NaN <-> sumA (A:=RealA) P = 0 \/ sumA (A:=RealA) Q = 0).
+Proof.
+  intros P Q HP HQ. rewrite v2_js_unfold.
+  destruct (Reqb (sumA (A:=RealA) P) 0) eqn:E1.
+  - apply Reqb_true in E1. split; auto.
+  - destruct (Reqb (sumA (A:=RealA) Q) 0) eqn:E2.
+    + apply Reqb_true in E2. split; auto.
+    + apply Reqb_false in E1. apply Reqb_false in E2. split.
+      * intro H. exfalso. exact (v2_js_body_not_nan _ _ H).
+      * intros [H|H]; contradiction.
+Qed.
+
+(** the radicand is a genuine non-negative real, at most [ln 2] *)
+Lemma v2_js_body_radicand : forall p q : list R, nonneg p -> nonneg q -> length p = length q ->
+  sumA (A:=RealA) p = 1 -> sumA (A:=RealA) q = 1 ->
+  exists r : R, v2_js_body p q = Fin (R_sqrt.sqrt r) /\ 0 <= r /\ r <= Rpower.ln 2.
+Proof.
+  intros p q Hp Hq HL Sp Sq.
+  destruct (v2_js_half p q Hp Hq HL) as (a & Ha & Halo & Hahi).
+  destruct (v2_js_half q p Hq Hp (eq_sym HL)) as (b & Hb & Hblo & Hbhi).
+  rewrite (v2_avg_map2_sym q p) in Hb, Hblo.
+  pose proof (v2_sum_avg p q HL) as Hm. rewrite Sp, Sq in *.
+  unfold v2_js_body. rewrite Ha, Hb. cbn [xadd add RealA].
+  exists ((a + b) / 2). split; [reflexivity|]. split; lra.
+Qed.
+
+Lemma v2_js_body_range : forall p q : list R, nonneg p -> nonneg q -> length p = length q ->
+  sumA (A:=RealA) p = 1 -> sumA (A:=RealA) q = 1 ->
+  exists v : R, v2_js_body p q = Fin v /\ 0 <= v /\ v <= R_sqrt.sqrt (Rpower.ln 2).
+Proof.
+  intros p q Hp Hq HL Sp Sq.
+  destruct (v2_js_body_radicand p q Hp Hq HL Sp Sq) as (r & Hr & Hr0 & Hr1).
+  exists (R_sqrt.sqrt r). split; [exact Hr|]. split.
+  - apply sqrt_pos.
+  - apply sqrt_le_1_alt. exact Hr1.
+Qed.
+
+Lemma js_range : forall P Q : list R, nonneg P -> nonneg Q -> length P = length Q ->
+  0 < sumA (A:=RealA) P -> 0 < sumA (A:=RealA) Q ->
+  exists v : R, js_f (A:=RealA) P Q = Fin v /\ 0 <= v /\ v <= sqrt (ln 2).
+Proof.
+  intros P Q HP HQ HL SP SQ. rewrite v2_js_unfold.
+  rewrite (proj2 (Reqb_false (sumA (A:=RealA) P) 0)) by lra.
+  rewrite (proj2 (Reqb_false (sumA (A:=RealA) Q) 0)) by lra.
+  cbn [sqrt ln RealA].
+  apply v2_js_body_range.
+  - apply v2_norm_nonneg; assumption.
+  - apply v2_norm_nonneg; assumption.
+  - rewrite !v2_norm_length. exact HL.
+  - apply v2_norm_sum1; assumption.
+  - apply v2_norm_sum1; assumption.
+Qed.
+
+(** * Part U — the uniform-bins path of [np.histogram] *)
+
+(** ** structural facts *)
+Lemma u_filter_length_le : forall {T} (f : T -> bool) (l : list T), (length (filter f l) <= length l)%nat.
+Proof.
+  intros T f l. induction l as [|a l IH]; cbn [filter length]; [lia|].
+  destruct (f a); cbn [length]; lia.
+Qed.
+
+Lemma u_trunc_idx_le : forall (f : R) (nb : nat), (trunc_idx (A:=RealA) f nb <= nb)%nat.
+Proof.
+  intros f nb. unfold trunc_idx.
+  pose proof (u_filter_length_le (fun k : nat => leb (ofN (A:=RealA) k) f) (seq 1 nb)) as H.
+  rewrite seq_length in H. exact H.
+Qed.
+
+Lemma u_idx_nat : forall (nb i0 : nat) (b1 b2 : nat -> bool), (1 <= nb)%nat -> (i0 <= nb)%nat ->
+  ((let i1 := if Nat.eqb i0 nb then pred i0 else i0 in
+    let i2 := if b1 i1 then pred i1 else i1 in
+    if andb (b2 i2) (negb (Nat.eqb i2 (pred nb))) then S i2 else i2) < nb)%nat.
+Proof.
+  intros nb i0 b1 b2 Hnb H0. cbv zeta.
+  set (i1 := if Nat.eqb i0 nb then pred i0 else i0).
+  assert (H1 : (i1 <= nb - 1)%nat).
+  { subst i1. destruct (Nat.eqb_spec i0 nb); lia. }
+  set (i2 := if b1 i1 then pred i1 else i1).
+  assert (H2 : (i2 <= nb - 1)%nat).
+  { subst i2. destruct (b1 i1); lia. }
+  destruct (Nat.eqb_spec i2 (pred nb)) as [He|Hne]; cbn [negb].
+  - rewrite andb_false_r. lia.
+  - destruct (andb _ _); lia.
+Qed.
+
+Lemma uni_index_lt : forall (lo hi : R) (nb : nat) (edges : list R) (x : R), (1 <= nb)%nat ->
+  (uni_index (A:=RealA) lo hi nb edges x < nb)%nat.
+Proof.
+  intros lo hi nb edges x Hnb. unfold uni_index.
+  exact (u_idx_nat nb _ (fun i1 => @ltb RealA x (nth i1 edges zero))
+           (fun i2 => @leb RealA (nth (S i2) edges zero) x) Hnb (u_trunc_idx_le _ nb)).
+Qed.
+
+Lemma uni_counts_length : forall (lo hi : R) (nb : nat) (xs : list R), length (uni_counts (A:=RealA) lo hi nb xs) = nb.
+Proof.
+  intros lo hi nb xs. unfold uni_counts.
+  destruct (outer_edges lo hi) as [a b].
+  rewrite map_length, seq_length. reflexivity.
+Qed.
+
+Lemma uni_counts_nonneg : forall (lo hi : R) (nb : nat) (xs : list R), Forall (fun c => (0 <= c)%Z) (uni_counts (A:=RealA) lo hi nb xs).
+Proof.
+  intros lo hi nb xs. unfold uni_counts.
+  destruct (outer_edges lo hi) as [a b].
+  apply Forall_map. apply Forall_forall. intros j _. apply Nat2Z.is_nonneg.
+Qed.
+
+(** ** counting indices *)
+Lemma u_Zsum_app : forall l r : list Z, Zsum (l ++ r) = (Zsum l + Zsum r)%Z.
+Proof.
+  induction l as [|a l IH]; intros r; cbn [app Zsum fold_right]; [reflexivity|].
+  fold (Zsum (l ++ r)). fold (Zsum l). rewrite IH. lia.
+Qed.
+
+Lemma u_count_step : forall (idx : list nat) (n : nat),
+  (length (filter (fun i => Nat.ltb i n) idx) + length (filter (Nat.eqb n) idx)
+   = length (filter (fun i => Nat.ltb i (S n)) idx))%nat.
+Proof.
+  induction idx as [|a idx IH]; intros n; cbn [filter length]; [reflexivity|].
+  specialize (IH n).
+  destruct (Nat.ltb_spec a n); destruct (Nat.eqb_spec n a); destruct (Nat.ltb_spec a (S n));
+    cbn [length]; lia.
+Qed.
+
+Lemma u_count_lt : forall (idx : list nat) (n : nat),
+  Zsum (map (fun j => Z.of_nat (length (filter (Nat.eqb j) idx))) (seq 0 n))
+  = Z.of_nat (length (filter (fun i => Nat.ltb i n) idx)).
+Proof.
+  intros idx n. induction n as [|n IH].
+  - cbn [seq map Zsum fold_right].
+    assert (E : filter (fun i => Nat.ltb i 0) idx = []).
+    { induction idx as [|a idx IHi]; cbn [filter]; [reflexivity|].
+      destruct (Nat.ltb_spec a 0); [lia|exact IHi]. }
+    rewrite E. reflexivity.
+  - rewrite seq_S, map_app, u_Zsum_app, IH. cbn [Nat.add map Zsum fold_right].
+    rewrite <- u_count_step. lia.
+Qed.
+
+Lemma u_filter_all : forall {T} (f : T -> bool) (l : list T), (forall x, In x l -> f x = true) -> filter f l = l.
+Proof.
+  intros T f l. induction l as [|a l IH]; intros H; cbn [filter]; [reflexivity|].
+  rewrite (H a (or_introl eq_refl)). rewrite IH; [reflexivity|].
+  intros x Hx. apply H. right. exact Hx.
+Qed.
+
+Lemma u_count_total : forall (idx : list nat) (n : nat), (forall i, In i idx -> (i < n)%nat) ->
+  Zsum (map (fun j => Z.of_nat (length (filter (Nat.eqb j) idx))) (seq 0 n)) = Z.of_nat (length idx).
+Proof.
+  intros idx n H. rewrite u_count_lt. rewrite u_filter_all; [reflexivity|].
+  intros i Hi. apply Nat.ltb_lt. apply H. exact Hi.
+Qed.
+
+Lemma u_half : half (A:=RealA) = 1 / 2.
+Proof. reflexivity. Qed.
+
+Lemma u_counts_sum_gen : forall (lo hi : R) (nb : nat) (xs : list R), (1 <= nb)%nat ->
+  (forall x, In x xs -> lo <= x <= hi) ->
+  Zsum (map (fun j => Z.of_nat (length (filter (Nat.eqb j)
+          (map (uni_index (A:=RealA) lo hi nb (linspace (A:=RealA) lo hi (S nb)))
+               (filter (fun x : R => andb (@leb RealA lo x) (@leb RealA x hi)) xs)))))
+        (seq 0 nb)) = Z.of_nat (length xs).
+Proof.
+  intros lo hi nb xs Hnb Hin.
+  rewrite u_filter_all.
+  - rewrite u_count_total; [rewrite map_length; reflexivity|].
+    intros i Hi. apply in_map_iff in Hi. destruct Hi as [x [<- _]].
+    apply uni_index_lt. exact Hnb.
+  - intros x Hx. destruct (Hin x Hx) as [H1 H2]. cbn [leb RealA].
+    apply andb_true_intro. split; apply Rleb_true; assumption.
+Qed.
+
+Lemma uni_counts_sum : forall (lo0 hi0 : R) (nb : nat) (xs : list R), (1 <= nb)%nat -> lo0 <= hi0 ->
+  (forall x, In x xs -> lo0 <= x <= hi0) ->
+  Zsum (uni_counts (A:=RealA) lo0 hi0 nb xs) = Z.of_nat (length xs).
+Proof.
+  intros lo0 hi0 nb xs Hnb Hle Hin. unfold uni_counts, outer_edges.
+  cbn [eqb RealA]. destruct (Reqb lo0 hi0) eqn:E.
+  - apply u_counts_sum_gen; [exact Hnb|].
+    intros x Hx. destruct (Hin x Hx) as [H1 H2]. rewrite u_half.
+    cbn [sub add RealA]. lra.
+  - apply u_counts_sum_gen; assumption.
+Qed.
+
+(** ** permutation invariance *)
+Lemma u_perm_filter : forall {T} (f : T -> bool) (l l' : list T), Permutation l l' -> Permutation (filter f l) (filter f l').
+Proof.
+  intros T f l l' HP. induction HP as [|a l l' HP IH|a b l|l l' l'' HP1 IH1 HP2 IH2].
+  - constructor.
+  - cbn [filter]. destruct (f a); [constructor|]; exact IH.
+  - cbn [filter]. destruct (f a); destruct (f b); try apply Permutation_refl. apply perm_swap.
+  - eapply Permutation_trans; eassumption.
+Qed.
+
+Lemma uni_counts_perm : forall (lo hi : R) (nb : nat) (xs xs' : list R), Permutation xs xs' ->
+  uni_counts (A:=RealA) lo hi nb xs = uni_counts (A:=RealA) lo hi nb xs'.
+Proof.
+  intros lo hi nb xs xs' HP. unfold uni_counts.
+  destruct (outer_edges lo hi) as [a b].
+  apply map_ext. intros j. f_equal.
+  apply Permutation_length. apply u_perm_filter. apply Permutation_map. apply u_perm_filter. exact HP.
+Qed.
+
+(** ** the HI proportions *)
+Lemma u_hi_range : forall (X Y : list R) (x : R), In x X \/ In x Y ->
+  lmin (A:=RealA) [lmin (A:=RealA) X; lmin (A:=RealA) Y] <= x <= lmax (A:=RealA) [lmax (A:=RealA) X; lmax (A:=RealA) Y].
+Proof.
+  intros X Y x H.
+  pose proof (lmin_le [lmin (A:=RealA) X; lmin (A:=RealA) Y] (lmin (A:=RealA) X) (or_introl eq_refl)) as H1.
+  pose proof (lmin_le [lmin (A:=RealA) X; lmin (A:=RealA) Y] (lmin (A:=RealA) Y) (or_intror (or_introl eq_refl))) as H2.
+  pose proof (lmax_ge [lmax (A:=RealA) X; lmax (A:=RealA) Y] (lmax (A:=RealA) X) (or_introl eq_refl)) as H3.
+  pose proof (lmax_ge [lmax (A:=RealA) X; lmax (A:=RealA) Y] (lmax (A:=RealA) Y) (or_intror (or_introl eq_refl))) as H4.
+  destruct H as [H|H].
+  - pose proof (lmin_le X x H) as H5. pose proof (lmax_ge X x H) as H6.
+    split; [apply Rle_trans with (lmin (A:=RealA) X) | apply Rle_trans with (lmax (A:=RealA) X)]; assumption.
+  - pose proof (lmin_le Y x H) as H5. pose proof (lmax_ge Y x H) as H6.
+    split; [apply Rle_trans with (lmin (A:=RealA) Y) | apply Rle_trans with (lmax (A:=RealA) Y)]; assumption.
+Qed.
+
+Lemma u_length_pos : forall {T} (l : list T), l <> [] -> (0 < length l)%nat.
+Proof. intros T [|a l] H; [congruence|cbn; lia]. Qed.
+
+Lemma hi_props_dist : forall (nb : nat) (X Y : list R), (1 <= nb)%nat -> X <> [] -> Y <> [] ->
+  isdist (fst (hi_props (A:=RealA) nb X Y)) /\ isdist (snd (hi_props (A:=RealA) nb X Y)).
+Proof.
+  intros nb X Y Hnb HX HY. unfold hi_props. cbn [fst snd].
+  assert (Hle : lmin (A:=RealA) [lmin (A:=RealA) X; lmin (A:=RealA) Y] <= lmax (A:=RealA) [lmax (A:=RealA) X; lmax (A:=RealA) Y]).
+  { destruct X as [|x X]; [congruence|].
+    destruct (u_hi_range (x :: X) Y x (or_introl (or_introl eq_refl))) as [H1 H2].
+    eapply Rle_trans; eassumption. }
+  split; apply proportions_isdist.
+  - apply u_length_pos; exact HX.
+  - apply uni_counts_nonneg.
+  - apply uni_counts_sum; [exact Hnb|exact Hle|].
+    intros x Hx. apply u_hi_range. left. exact Hx.
+  - apply u_length_pos; exact HY.
+  - apply uni_counts_nonneg.
+  - apply uni_counts_sum; [exact Hnb|exact Hle|].
+    intros x Hx. apply u_hi_range. right. exact Hx.
+Qed.
+
+Lemma hi_props_perm : forall (nb : nat) (X X' Y Y' : list R), Permutation X X' -> Permutation Y Y' ->
+  hi_props (A:=RealA) nb X Y = hi_props (A:=RealA) nb X' Y'.
+Proof.
+  intros nb X X' Y Y' HX HY. unfold hi_props. change (num RealA) with R.
+  rewrite (lmin_perm X X' HX), (lmin_perm Y Y' HY), (lmax_perm X X' HX), (lmax_perm Y Y' HY).
+  rewrite (Permutation_length HX), (Permutation_length HY).
+  rewrite (uni_counts_perm _ _ nb X X' HX), (uni_counts_perm _ _ nb Y Y' HY).
+  reflexivity.
+Qed.
+
+Lemma hi_props_swap : forall (nb : nat) (X Y : list R), X <> [] -> Y <> [] ->
+  hi_props (A:=RealA) nb Y X = (snd (hi_props (A:=RealA) nb X Y), fst (hi_props (A:=RealA) nb X Y)).
+Proof.
+  intros nb X Y _ _. unfold hi_props. cbn [fst snd].
+  rewrite (lmin_perm [lmin (A:=RealA) Y; lmin (A:=RealA) X] [lmin (A:=RealA) X; lmin (A:=RealA) Y]) by apply perm_swap.
+  rewrite (lmax_perm [lmax (A:=RealA) Y; lmax (A:=RealA) X] [lmax (A:=RealA) X; lmax (A:=RealA) Y]) by apply perm_swap.
+  reflexivity.
+Qed.
+
+Lemma hi_props_self : forall (nb : nat) (X : list R), fst (hi_props (A:=RealA) nb X X) = snd (hi_props (A:=RealA) nb X X).
+Proof. intros nb X. reflexivity. Qed.
+
+(** ** truncation *)
+Lemma u_trunc_S : forall (f : R) (nb : nat),
+  trunc_idx (A:=RealA) f (S nb) = (trunc_idx (A:=RealA) f nb + (if Rleb (INR (S nb)) f then 1 else 0))%nat.
+Proof.
+  intros f nb. unfold trunc_idx. rewrite seq_S, filter_app, app_length.
+  cbn [filter Nat.add]. rewrite ofN_INR. cbn [leb RealA].
+  destruct (Rleb (INR (S nb)) f); reflexivity.
+Qed.
+
+Lemma trunc_idx_spec : forall (f : R) (nb : nat), 0 <= f ->
+  (trunc_idx (A:=RealA) f nb <= nb)%nat /\ INR (trunc_idx (A:=RealA) f nb) <= f /\
+  (trunc_idx (A:=RealA) f nb = nb \/ f < INR (trunc_idx (A:=RealA) f nb) + 1).
+Proof.
+  intros f nb Hf. induction nb as [|nb IH].
+  - unfold trunc_idx. cbn [seq filter length INR]. split; [lia|]. split; [lra|]. left; reflexivity.
+  - destruct IH as [H1 [H2 H3]]. rewrite u_trunc_S.
+    set (t := trunc_idx (A:=RealA) f nb) in *.
+    destruct (Rleb_spec (INR (S nb)) f) as [Hle|Hgt].
+    + assert (Et : t = nb).
+      { destruct H3 as [E|Hlt]; [exact E|].
+        exfalso. assert (Ht : INR t + 1 <= INR (S nb)).
+        { rewrite S_INR. apply le_INR in H1. lra. }
+        lra. }
+      rewrite Et. replace (nb + 1)%nat with (S nb) by lia.
+      split; [lia|]. split; [exact Hle|]. left; reflexivity.
+    + replace (t + 0)%nat with t by lia.
+      split; [lia|]. split; [exact H2|]. right.
+      destruct H3 as [E|Hlt]; [|exact Hlt].
+      rewrite E. rewrite S_INR in Hgt. lra.
+Qed.
+
+(** ** the bin index in exact arithmetic *)
+Lemma u_INR_pred : forall nb : nat, (1 <= nb)%nat -> INR (pred nb) = INR nb - 1.
+Proof. intros [|n] H; [lia|]. rewrite S_INR. cbn [pred]. lra. Qed.
+
+Lemma u_index_eval : forall (lo hi x : R) (nb : nat), (1 <= nb)%nat -> lo < hi -> lo <= x <= hi ->
+  let f := (x - lo) / (hi - lo) * INR nb in
+  let k := trunc_idx (A:=RealA) f nb in
+  let c := (hi - lo) / INR nb in
+  x = lo + f * c /\ hi = lo + INR nb * c /\ 0 < c /\ 0 <= f <= INR nb /\
+  uni_index (A:=RealA) lo hi nb (linspace (A:=RealA) lo hi (S nb)) x = if Nat.eqb k nb then pred nb else k.
+Proof.
+  intros lo hi x nb Hnb Hlt Hx f k c.
+  assert (Hn : 0 < INR nb) by (apply lt_0_INR; lia).
+  assert (Hc : 0 < c) by (subst c; apply Rdiv_lt_0_compat; lra).
+  assert (Exf : x = lo + f * c) by (subst f c; field; split; lra).
+  assert (Ehi : hi = lo + INR nb * c) by (subst c; field; lra).
+  assert (Hf0 : 0 <= f).
+  { subst f. apply Rmult_le_pos; [|lra]. unfold Rdiv. apply Rmult_le_pos; [lra|].
+    left. apply Rinv_0_lt_compat. lra. }
+  assert (Hfn : f <= INR nb) by nra.
+  split; [exact Exf|]. split; [exact Ehi|]. split; [exact Hc|]. split; [split; assumption|].
+  destruct (trunc_idx_spec f nb Hf0) as [Hk1 [Hk2 Hk3]]. fold k in Hk1, Hk2, Hk3.
+  assert (Hedge : forall i : nat, (i <= nb)%nat ->
+            nth i (linspace (A:=RealA) lo hi (S nb)) (@zero RealA) = lo + INR i * c).
+  { intros i Hi. change (@zero RealA) with 0. rewrite linspace_nth by lia. subst c. eqR. unfold Rdiv. ring. }
+  unfold uni_index. rewrite ofN_INR. cbn [sub div mul ltb leb RealA].
+  change (trunc_idx (A:=RealA) ((x - lo) / (hi - lo) * INR nb) nb) with k.
+  destruct (Nat.eqb_spec k nb) as [Ek|Nk].
+  - rewrite Ek in *. rewrite (Hedge (pred nb)) by lia.
+    pose proof (u_INR_pred nb Hnb) as Hp.
+    assert (Ef : f = INR nb) by lra.
+    assert (F1 : Rltb x (lo + INR (pred nb) * c) = false).
+    { apply Rltb_false. rewrite Hp. nra. }
+    rewrite F1. rewrite Nat.eqb_refl. cbn [negb]. rewrite andb_false_r. reflexivity.
+  - assert (Hklt : (k < nb)%nat) by lia.
+    destruct Hk3 as [E|Hk3]; [contradiction|].
+    rewrite (Hedge k) by lia.
+    assert (F1 : Rltb x (lo + INR k * c) = false).
+    { apply Rltb_false. nra. }
+    rewrite F1. rewrite (Hedge (S k)) by lia.
+    assert (F2 : Rleb (lo + INR (S k) * c) x = false).
+    { apply Rleb_false. rewrite S_INR. nra. }
+    rewrite F2. cbn [andb]. reflexivity.
+Qed.
+
+Lemma uni_index_spec : forall (lo hi x : R) (nb : nat), (1 <= nb)%nat -> lo < hi -> lo <= x <= hi ->
+  let w := (hi - lo) / INR nb in
+  let i := uni_index (A:=RealA) lo hi nb (linspace (A:=RealA) lo hi (S nb)) x in
+  (i < nb)%nat /\ lo + INR i * w <= x /\ (x < lo + (INR i + 1) * w \/ (i = nb - 1)%nat /\ x = hi).
+Proof.
+  intros lo hi x nb Hnb Hlt Hx w i.
+  split; [apply uni_index_lt; exact Hnb|].
+  destruct (u_index_eval lo hi x nb Hnb Hlt Hx) as [Exf [Ehi [Hc [[Hf0 Hfn] Ev]]]].
+  fold w in Exf, Ehi, Hc. fold i in Ev.
+  set (f := (x - lo) / (hi - lo) * INR nb) in *.
+  destruct (trunc_idx_spec f nb Hf0) as [Hk1 [Hk2 Hk3]].
+  set (k := trunc_idx (A:=RealA) f nb) in *.
+  destruct (Nat.eqb_spec k nb) as [Ek|Nk].
+  - rewrite Ev. rewrite Ek in Hk2. assert (Ef : f = INR nb) by lra.
+    rewrite (u_INR_pred nb Hnb).
+    split; [nra|]. right. split; [lia|]. rewrite Exf, Ef. symmetry. exact Ehi.
+  - rewrite Ev. destruct Hk3 as [E|Hk3]; [contradiction|].
+    split; [nra|]. left. nra.
+Qed.
+
+Lemma bin_index_unique : forall (lo hi x : R) (nb i j : nat), (1 <= nb)%nat -> lo < hi ->
+  let w := (hi - lo) / INR nb in
+  (i < nb)%nat -> (j < nb)%nat ->
+  lo + INR i * w <= x -> (x < lo + (INR i + 1) * w \/ (i = nb - 1)%nat /\ x = hi) ->
+  lo + INR j * w <= x -> (x < lo + (INR j + 1) * w \/ (j = nb - 1)%nat /\ x = hi) ->
+  i = j.
+Proof.
+  intros lo hi x nb i j Hnb Hlt w Hi Hj Li Ui Lj Uj.
+  assert (Hn : 0 < INR nb) by (apply lt_0_INR; lia).
+  assert (Hw : 0 < w) by (subst w; apply Rdiv_lt_0_compat; lra).
+  assert (Key : forall a b : nat, (a < b)%nat -> (b < nb)%nat ->
+            lo + INR b * w <= x -> (x < lo + (INR a + 1) * w \/ (a = nb - 1)%nat /\ x = hi) -> False).
+  { intros a b Hab Hb Lb Ua. destruct Ua as [Ua|[Ea _]]; [|lia].
+    assert (H1 : INR a + 1 <= INR b).
+    { rewrite <- S_INR. apply le_INR. lia. }
+    assert (H2 : (INR a + 1) * w <= INR b * w) by (apply Rmult_le_compat_r; lra).
+    lra. }
+  destruct (lt_eq_lt_dec i j) as [[Hij|E]|Hji]; [|exact E|].
+  - exfalso. exact (Key i j Hij Hj Lj Ui).
+  - exfalso. exact (Key j i Hji Hi Li Uj).
+Qed.
+
+(** * Part T1 — insertion sort, empirical CDF, EMD / energy distance (SciPy [_cdf_distance]) *)
+
+(** ** insertion sort *)
+Lemma t1_insert_nil : forall x : R, insert (A:=RealA) x [] = [x].
+Proof. reflexivity. Qed.
+
+Lemma t1_insert_cons : forall (x y : R) (r : list R),
+  insert (A:=RealA) x (y :: r) = if Rleb x y then x :: y :: r else y :: insert (A:=RealA) x r.
+Proof. reflexivity. Qed.
+
+Lemma t1_isort_cons : forall (x : R) (l : list R),
+  isort (A:=RealA) (x :: l) = insert (A:=RealA) x (isort (A:=RealA) l).
+Proof. reflexivity. Qed.
+
+Lemma t1_insert_perm : forall (x : R) (l : list R), Permutation (insert (A:=RealA) x l) (x :: l).
+Proof.
+  intros x l. induction l as [|y r IH].
+  - rewrite t1_insert_nil. apply Permutation_refl.
+  - rewrite t1_insert_cons. destruct (Rleb_spec x y) as [Hle|Hnle].
+    + apply Permutation_refl.
+    + apply perm_trans with (y :: x :: r); [apply perm_skip; exact IH | apply perm_swap].
+Qed.
+
+Lemma t1_insert_sorted : forall (x : R) (l : list R),
+  StronglySorted Rle l -> StronglySorted Rle (insert (A:=RealA) x l).
+Proof.
+  intros x l H. induction H as [|y r Hs IH Hall].
+  - rewrite t1_insert_nil. constructor; constructor.
+  - rewrite t1_insert_cons. destruct (Rleb_spec x y) as [Hle|Hnle].
+    + constructor.
+      * constructor; auto.
+      * constructor; auto.
+        eapply Forall_impl; [|exact Hall]. intros a Ha. cbv beta in *. lra.
+    + constructor; auto.
+      apply Forall_forall. intros a Ha.
+      apply (Permutation_in _ (t1_insert_perm x r)) in Ha.
+      destruct Ha as [<-|Ha]; [lra|].
+      rewrite Forall_forall in Hall. apply Hall; exact Ha.
+Qed.
+
+Lemma isort_perm : forall l : list R, Permutation (isort (A:=RealA) l) l.
+Proof.
+  induction l as [|x l IH].
+  - apply Permutation_refl.
+  - rewrite t1_isort_cons.
+    apply perm_trans with (x :: isort (A:=RealA) l); [apply t1_insert_perm | apply perm_skip; exact IH].
+Qed.
+
+Lemma isort_sorted : forall l : list R, StronglySorted Rle (isort (A:=RealA) l).
+Proof.
+  induction l as [|x l IH].
+  - constructor.
+  - rewrite t1_isort_cons. apply t1_insert_sorted; exact IH.
+Qed.
+
+Lemma t1_sorted_head_le : forall (a : R) (l : list R) (b : R),
+  StronglySorted Rle (a :: l) -> In b (a :: l) -> a <= b.
+Proof.
+  intros a l b Hs Hin. inversion Hs as [|a' l' Hs' Hall]; subst.
+  destruct Hin as [<-|Hin]; [lra|].
+  rewrite Forall_forall in Hall. apply Hall; exact Hin.
+Qed.
+
+Lemma t1_sorted_perm_eq : forall l l' : list R,
+  StronglySorted Rle l -> StronglySorted Rle l' -> Permutation l l' -> l = l'.
+Proof.
+  induction l as [|a l IH]; intros l' Hs Hs' HP.
+  - apply Permutation_nil in HP. subst; reflexivity.
+  - destruct l' as [|b l'].
+    + apply Permutation_sym, Permutation_nil in HP. discriminate.
+    + assert (Hab : a = b).
+      { apply Rle_antisym.
+        - apply (t1_sorted_head_le a l b Hs).
+          apply (Permutation_in _ (Permutation_sym HP)). left; reflexivity.
+        - apply (t1_sorted_head_le b l' a Hs').
+          apply (Permutation_in _ HP). left; reflexivity. }
+      subst b. f_equal.
+      inversion Hs; inversion Hs'; subst.
+      apply IH; auto.
+      eapply Permutation_cons_inv; exact HP.
+Qed.
+
+(* sorting is determined by the multiset *)
+Lemma isort_unique : forall l l' : list R, Permutation l l' -> isort (A:=RealA) l = isort (A:=RealA) l'.
+Proof.
+  intros l l' HP. apply t1_sorted_perm_eq; try apply isort_sorted.
+  apply perm_trans with l; [apply isort_perm|].
+  apply perm_trans with l'; [exact HP | apply Permutation_sym, isort_perm].
+Qed.
+
+(** ** empirical CDF *)
+Lemma t1_filter_perm : forall (f : R -> bool) (l l' : list R),
+  Permutation l l' -> Permutation (filter f l) (filter f l').
+Proof.
+  intros f l l' HP. induction HP as [|x l l' HP IH|x y l|l l' l'' HP1 IH1 HP2 IH2].
+  - apply Permutation_refl.
+  - cbn [filter]. destruct (f x); [apply perm_skip|]; exact IH.
+  - cbn [filter]. destruct (f x), (f y); try apply Permutation_refl. apply perm_swap.
+  - eapply perm_trans; eassumption.
+Qed.
+
+Lemma t1_count_le_perm : forall (z : R) (xs xs' : list R),
+  Permutation xs xs' -> count_le (A:=RealA) z xs = count_le (A:=RealA) z xs'.
+Proof.
+  intros z xs xs' HP. unfold count_le. f_equal.
+  apply Permutation_length. apply t1_filter_perm. exact HP.
+Qed.
+
+Lemma ecdf_perm : forall (xs xs' : list R) (z : R), Permutation xs xs' -> ecdf (A:=RealA) xs z = ecdf (A:=RealA) xs' z.
+Proof.
+  intros xs xs' z HP. unfold ecdf.
+  rewrite (t1_count_le_perm z xs xs' HP).
+  change (num RealA) with R. rewrite (Permutation_length HP). reflexivity.
+Qed.
+
+(** ** the term list of [_cdf_distance] *)
+Lemma t1_cdf_terms_nil : forall (g : R -> R) (X Y : list R),
+  cdf_terms (A:=RealA) g X Y [] = [].
+Proof. reflexivity. Qed.
+
+Lemma t1_cdf_terms_single : forall (g : R -> R) (X Y : list R) (z : R),
+  cdf_terms (A:=RealA) g X Y [z] = [].
+Proof. reflexivity. Qed.
+
+Lemma t1_cdf_terms_cons2 : forall (g : R -> R) (X Y : list R) (z z' : R) (r : list R),
+  cdf_terms (A:=RealA) g X Y (z :: z' :: r) =
+  g (ecdf (A:=RealA) X z - ecdf (A:=RealA) Y z) * (z' - z) :: cdf_terms (A:=RealA) g X Y (z' :: r).
+Proof. reflexivity. Qed.
+
+Lemma t1_absA_nonneg : forall t : R, 0 <= absA (A:=RealA) t.
+Proof.
+  intros t. unfold absA. cbn [ltb sub RealA]. change (@zero RealA) with 0.
+  destruct (Rltb_spec t 0); lra.
+Qed.
+
+Lemma t1_sqr_nonneg : forall t : R, 0 <= sqr (A:=RealA) t.
+Proof. intros t. unfold sqr. cbn [mul RealA]. nra. Qed.
+
+Lemma t1_absA_0 : absA (A:=RealA) 0 = 0.
+Proof.
+  unfold absA. cbn [ltb sub RealA]. change (@zero RealA) with 0.
+  destruct (Rltb_spec 0 0); lra.
+Qed.
+
+Lemma t1_sqr_0 : sqr (A:=RealA) 0 = 0.
+Proof. unfold sqr. cbn [mul RealA]. lra. Qed.
+
+Lemma t1_absA_swap : forall a b : R, absA (A:=RealA) (a - b) = absA (A:=RealA) (b - a).
+Proof.
+  intros a b. unfold absA. cbn [ltb sub RealA]. change (@zero RealA) with 0.
+  destruct (Rltb_spec (a - b) 0); destruct (Rltb_spec (b - a) 0); lra.
+Qed.
+
+Lemma t1_sqr_swap : forall a b : R, sqr (A:=RealA) (a - b) = sqr (A:=RealA) (b - a).
+Proof. intros a b. unfold sqr. cbn [mul RealA]. lra. Qed.
+
+Lemma t1_cdf_terms_nonneg : forall (g : R -> R) (X Y all : list R),
+  (forall t : R, 0 <= g t) -> StronglySorted Rle all -> nonneg (cdf_terms (A:=RealA) g X Y all).
+Proof.
+  intros g X Y all Hg Hs. induction Hs as [|z r Hs IH Hall].
+  - rewrite t1_cdf_terms_nil. constructor.
+  - destruct r as [|z' r'].
+    + rewrite t1_cdf_terms_single. constructor.
+    + rewrite t1_cdf_terms_cons2. constructor; [|exact IH].
+      apply Rmult_le_pos; [apply Hg|].
+      inversion Hall as [|u v Hzz' Hrest]; subst. lra.
+Qed.
+
+Lemma t1_cdf_terms_self : forall (g : R -> R) (X all : list R),
+  g 0 = 0 -> sumA (A:=RealA) (cdf_terms (A:=RealA) g X X all) = 0.
+Proof.
+  intros g X all Hg. induction all as [|z r IH].
+  - rewrite t1_cdf_terms_nil. sumA0. reflexivity.
+  - destruct r as [|z' r'].
+    + rewrite t1_cdf_terms_single. sumA0. reflexivity.
+    + rewrite t1_cdf_terms_cons2. rewrite sumA_cons, IH.
+      unfold Rminus at 1. rewrite Rplus_opp_r, Hg. lra.
+Qed.
+
+Lemma t1_cdf_terms_sym : forall (g : R -> R) (X Y all : list R),
+  (forall a b : R, g (a - b) = g (b - a)) ->
+  cdf_terms (A:=RealA) g X Y all = cdf_terms (A:=RealA) g Y X all.
+Proof.
+  intros g X Y all Hg. induction all as [|z r IH].
+  - reflexivity.
+  - destruct r as [|z' r'].
+    + reflexivity.
+    + rewrite !t1_cdf_terms_cons2. rewrite IH. rewrite (Hg (ecdf (A:=RealA) X z)). reflexivity.
+Qed.
+
+Lemma t1_cdf_terms_ext : forall (g : R -> R) (X X' Y Y' all : list R),
+  (forall z : R, ecdf (A:=RealA) X z = ecdf (A:=RealA) X' z) ->
+  (forall z : R, ecdf (A:=RealA) Y z = ecdf (A:=RealA) Y' z) ->
+  cdf_terms (A:=RealA) g X Y all = cdf_terms (A:=RealA) g X' Y' all.
+Proof.
+  intros g X X' Y Y' all HX HY. induction all as [|z r IH].
+  - reflexivity.
+  - destruct r as [|z' r'].
+    + reflexivity.
+    + rewrite !t1_cdf_terms_cons2. rewrite IH, HX, HY. reflexivity.
+Qed.
+
+(** ** EMD (Wasserstein-1) and energy distance *)
+Lemma t1_emd_unfold : forall X Y : list R,
+  emd_dist (A:=RealA) X Y =
+  sumA (A:=RealA) (cdf_terms (A:=RealA) (absA (A:=RealA)) X Y (isort (A:=RealA) (X ++ Y))).
+Proof. reflexivity. Qed.
+
+Lemma t1_energy_unfold : forall X Y : list R,
+  energy_dist (A:=RealA) X Y =
+  R_sqrt.sqrt 2 *
+  R_sqrt.sqrt (sumA (A:=RealA) (cdf_terms (A:=RealA) (sqr (A:=RealA)) X Y (isort (A:=RealA) (X ++ Y)))).
+Proof. reflexivity. Qed.
+
+Lemma emd_nonneg : forall X Y : list R, 0 <= emd_dist (A:=RealA) X Y.
+Proof.
+  intros X Y. rewrite t1_emd_unfold. apply sumA_nonneg.
+  apply t1_cdf_terms_nonneg; [apply t1_absA_nonneg | apply isort_sorted].
+Qed.
+
+Lemma energy_nonneg : forall X Y : list R, 0 <= energy_dist (A:=RealA) X Y.
+Proof.
+  intros X Y. rewrite t1_energy_unfold.
+  apply Rmult_le_pos; apply sqrt_pos.
+Qed.
+
+Lemma emd_self : forall X : list R, emd_dist (A:=RealA) X X = 0.
+Proof.
+  intros X. rewrite t1_emd_unfold. apply t1_cdf_terms_self. apply t1_absA_0.
+Qed.
+
+Lemma energy_self : forall X : list R, energy_dist (A:=RealA) X X = 0.
+Proof.
+  intros X. rewrite t1_energy_unfold.
+  rewrite (t1_cdf_terms_self (sqr (A:=RealA)) X _ t1_sqr_0).
+  rewrite sqrt_0. apply Rmult_0_r.
+Qed.
+
+Lemma emd_sym : forall X Y : list R, emd_dist (A:=RealA) X Y = emd_dist (A:=RealA) Y X.
+Proof.
+  intros X Y. rewrite !t1_emd_unfold.
+  rewrite (isort_unique (X ++ Y) (Y ++ X) (Permutation_app_comm X Y)).
+  rewrite (t1_cdf_terms_sym (absA (A:=RealA)) X Y _ t1_absA_swap). reflexivity.
+Qed.
+
+Lemma energy_sym : forall X Y : list R, energy_dist (A:=RealA) X Y = energy_dist (A:=RealA) Y X.
+Proof.
+  intros X Y. rewrite !t1_energy_unfold.
+  rewrite (isort_unique (X ++ Y) (Y ++ X) (Permutation_app_comm X Y)).
+  rewrite (t1_cdf_terms_sym (sqr (A:=RealA)) X Y _ t1_sqr_swap). reflexivity.
+Qed.
+
+Lemma emd_perm : forall X X' Y Y' : list R, Permutation X X' -> Permutation Y Y' ->
+  emd_dist (A:=RealA) X Y = emd_dist (A:=RealA) X' Y'.
+Proof.
+  intros X X' Y Y' HX HY. rewrite !t1_emd_unfold.
+  rewrite (isort_unique (X ++ Y) (X' ++ Y') (Permutation_app HX HY)).
+  rewrite (t1_cdf_terms_ext (absA (A:=RealA)) X X' Y Y' _
+             (fun z => ecdf_perm X X' z HX) (fun z => ecdf_perm Y Y' z HY)).
+  reflexivity.
+Qed.
+
+Lemma energy_perm : forall X X' Y Y' : list R, Permutation X X' -> Permutation Y Y' ->
+  energy_dist (A:=RealA) X Y = energy_dist (A:=RealA) X' Y'.
+Proof.
+  intros X X' Y Y' HX HY. rewrite !t1_energy_unfold.
+  rewrite (isort_unique (X ++ Y) (X' ++ Y') (Permutation_app HX HY)).
+  rewrite (t1_cdf_terms_ext (sqr (A:=RealA)) X X' Y Y' _
+             (fun z => ecdf_perm X X' z HX) (fun z => ecdf_perm Y Y' z HY)).
+  reflexivity.
+Qed.
+
+(** * Part T2 — affine scaling laws of EMD / energy distance ([_cdf_distance]) *)
+
+(** ** insertion sort: permutation and (strong) sortedness *)
+Fixpoint t2_srt (l : list R) : Prop :=
+  match l with
+  | [] => True
+  | z :: r => (forall y : R, In y r -> z <= y) /\ t2_srt r
+  end.
+
+Lemma t2_insert_perm : forall (x : R) (l : list R), Permutation (insert (A:=RealA) x l) (x :: l).
+Proof.
+  intros x l. induction l as [|y r IH]; cbn [insert]; [apply Permutation_refl|].
+  cbn [leb RealA]. destruct (Rleb x y).
+  - apply Permutation_refl.
+  - eapply perm_trans; [apply perm_skip; exact IH | apply perm_swap].
+Qed.
+
+Lemma t2_isort_perm : forall l : list R, Permutation (isort (A:=RealA) l) l.
+Proof.
+  induction l as [|x l IH]; [apply Permutation_refl|].
+  unfold isort in *. cbn [fold_right].
+  eapply perm_trans; [apply t2_insert_perm|]. apply perm_skip; exact IH.
+Qed.
+
+Lemma t2_insert_srt : forall (x : R) (l : list R), t2_srt l -> t2_srt (insert (A:=RealA) x l).
+Proof.
+  intros x l. induction l as [|y r IH]; intros Hs; cbn [insert].
+  - cbn [t2_srt]. split; [intros y []|exact I].
+  - cbn [leb RealA]. destruct Hs as [Hy Hr]. destruct (Rleb_spec x y) as [Hle|Hgt].
+    + cbn [t2_srt]. split; [|split; auto].
+      intros w [<-|Hw]; [exact Hle|]. specialize (Hy w Hw). lra.
+    + cbn [t2_srt]. split; [|apply IH; exact Hr].
+      intros w Hw. apply (Permutation_in _ (t2_insert_perm x r)) in Hw.
+      destruct Hw as [<-|Hw]; [lra|auto].
+Qed.
+
+Lemma t2_isort_srt : forall l : list R, t2_srt (isort (A:=RealA) l).
+Proof.
+  induction l as [|x l IH]; [exact I|].
+  unfold isort in *. cbn [fold_right]. apply t2_insert_srt. exact IH.
+Qed.
+
+Lemma t2_cdf_terms_cons2 : forall (g : R -> R) (X Y r : list R) (z z' : R),
+  cdf_terms (A:=RealA) g X Y (z :: z' :: r) =
+  g (ecdf (A:=RealA) X z - ecdf (A:=RealA) Y z) * (z' - z) :: cdf_terms (A:=RealA) g X Y (z' :: r).
+Proof. reflexivity. Qed.
+
+(** ** positive scale: [f x = a x + b] commutes with everything *)
+Lemma t2_insert_map_pos : forall (a b x : R) (l : list R), 0 < a ->
+  insert (A:=RealA) (a * x + b) (map (fun v : R => a * v + b) l) =
+  map (fun v : R => a * v + b) (insert (A:=RealA) x l).
+Proof.
+  intros a b x l Ha. induction l as [|y r IH]; cbn [insert map]; [reflexivity|].
+  cbn [leb RealA].
+  destruct (Rleb_spec x y) as [H1|H1]; destruct (Rleb_spec (a * x + b) (a * y + b)) as [H2|H2].
+  - reflexivity.
+  - exfalso; nra.
+  - exfalso; nra.
+  - cbn [map]. rewrite IH. reflexivity.
+Qed.
+
+Lemma t2_isort_map_pos : forall (a b : R) (l : list R), 0 < a ->
+  isort (A:=RealA) (map (fun v : R => a * v + b) l) = map (fun v : R => a * v + b) (isort (A:=RealA) l).
+Proof.
+  intros a b l Ha. induction l as [|x l IH]; [reflexivity|].
+  unfold isort in *. cbn [map fold_right]. rewrite IH. apply t2_insert_map_pos. exact Ha.
+Qed.
+
+Lemma t2_count_le_map_pos : forall (a b z : R) (xs : list R), 0 < a ->
+  count_le (A:=RealA) (a * z + b) (map (fun v : R => a * v + b) xs) = count_le (A:=RealA) z xs.
+Proof.
+  intros a b z xs Ha. unfold count_le. cbn [leb RealA]. f_equal.
+  induction xs as [|x r IH]; cbn [map filter]; [reflexivity|].
+  destruct (Rleb_spec x z) as [H1|H1]; destruct (Rleb_spec (a * x + b) (a * z + b)) as [H2|H2];
+    try (exfalso; nra); cbn [length]; rewrite IH; reflexivity.
+Qed.
+
+Lemma t2_ecdf_map_pos : forall (a b z : R) (xs : list R), 0 < a ->
+  ecdf (A:=RealA) (map (fun v : R => a * v + b) xs) (a * z + b) = ecdf (A:=RealA) xs z.
+Proof.
+  intros a b z xs Ha. unfold ecdf. rewrite t2_count_le_map_pos by exact Ha.
+  rewrite map_length. reflexivity.
+Qed.
+
+Lemma t2_cdf_terms_map_pos : forall (g : R -> R) (a b : R) (X Y all : list R), 0 < a ->
+  cdf_terms (A:=RealA) g (map (fun v : R => a * v + b) X) (map (fun v : R => a * v + b) Y)
+            (map (fun v : R => a * v + b) all)
+  = map (fun t : R => t * a) (cdf_terms (A:=RealA) g X Y all).
+Proof.
+  intros g a b X Y all Ha. induction all as [|z r IH]; [reflexivity|].
+  destruct r as [|z' r']; [reflexivity|].
+  change (map (fun v : R => a * v + b) (z :: z' :: r'))
+    with ((a * z + b) :: map (fun v : R => a * v + b) (z' :: r')).
+  change (map (fun v : R => a * v + b) (z' :: r'))
+    with ((a * z' + b) :: map (fun v : R => a * v + b) r') at 1.
+  rewrite t2_cdf_terms_cons2.
+  change ((a * z' + b) :: map (fun v : R => a * v + b) r')
+    with (map (fun v : R => a * v + b) (z' :: r')).
+  rewrite IH. rewrite t2_cdf_terms_cons2. cbn [map].
+  rewrite !t2_ecdf_map_pos by exact Ha.
+  f_equal. ring.
+Qed.
+
+Lemma emd_affine_pos : forall (a b : R) (X Y : list R), 0 < a ->
+  emd_dist (A:=RealA) (map (fun x => a * x + b) X) (map (fun x => a * x + b) Y) = a * emd_dist (A:=RealA) X Y.
+Proof.
+  intros a b X Y Ha. unfold emd_dist.
+  rewrite <- map_app, t2_isort_map_pos by exact Ha.
+  rewrite t2_cdf_terms_map_pos by exact Ha.
+  rewrite sumA_map_scal. apply Rmult_comm.
+Qed.
+
+(** the energy sum is non-negative on a sorted pooled list *)
+Lemma t2_cdf_terms_sqr_nonneg : forall (X Y all : list R), t2_srt all ->
+  nonneg (cdf_terms (A:=RealA) sqr X Y all).
+Proof.
+  intros X Y all. induction all as [|z r IH]; intros Hs; [constructor|].
+  destruct r as [|z' r']; [constructor|].
+  rewrite t2_cdf_terms_cons2. destruct Hs as [Hz Hr]. constructor; [|apply IH; exact Hr].
+  unfold sqr. cbn [mul RealA].
+  assert (z <= z') by (apply Hz; left; reflexivity).
+  apply Rmult_le_pos; [apply Rle_0_sqr | lra].
+Qed.
+
+Lemma t2_energy_sum_nonneg : forall X Y : list R,
+  0 <= sumA (A:=RealA) (cdf_terms (A:=RealA) sqr X Y (isort (A:=RealA) (X ++ Y))).
+Proof. intros X Y. apply sumA_nonneg, t2_cdf_terms_sqr_nonneg, t2_isort_srt. Qed.
+
+Lemma energy_affine_pos : forall (a b : R) (X Y : list R), 0 < a ->
+  energy_dist (A:=RealA) (map (fun x => a * x + b) X) (map (fun x => a * x + b) Y) = sqrt a * energy_dist (A:=RealA) X Y.
+Proof.
+  intros a b X Y Ha. unfold energy_dist.
+  rewrite <- map_app, t2_isort_map_pos by exact Ha.
+  rewrite t2_cdf_terms_map_pos by exact Ha.
+  rewrite sumA_map_scal. cbn [mul sqrt RealA].
+  rewrite sqrt_mult; [change (num RealA) with R; ring | apply t2_energy_sum_nonneg | lra].
+Qed.
+
+(** ** zero scale: every pooled point equals [b] *)
+Lemma t2_cdf_terms_const : forall (g : R -> R) (X Y all : list R) (c : R),
+  (forall x : R, In x all -> x = c) ->
+  Forall (fun t : R => t = 0) (cdf_terms (A:=RealA) g X Y all).
+Proof.
+  intros g X Y all c. induction all as [|z r IH]; intros H; [constructor|].
+  destruct r as [|z' r']; [constructor|].
+  rewrite t2_cdf_terms_cons2. constructor.
+  - rewrite (H z) by (left; reflexivity). rewrite (H z') by (right; left; reflexivity). ring.
+  - apply IH. intros x Hx. apply H. right; exact Hx.
+Qed.
+
+Lemma t2_sumA_zeros : forall l : list R, Forall (fun t : R => t = 0) l -> sumA (A:=RealA) l = 0.
+Proof.
+  induction 1 as [|x l Hx Hl IH]; [reflexivity|].
+  rewrite sumA_cons, IH, Hx. lra.
+Qed.
+
+Lemma t2_zero_sum : forall (g : R -> R) (b : R) (X Y : list R),
+  sumA (A:=RealA) (cdf_terms (A:=RealA) g (map (fun x : R => 0 * x + b) X) (map (fun x : R => 0 * x + b) Y)
+    (isort (A:=RealA) (map (fun x : R => 0 * x + b) X ++ map (fun x : R => 0 * x + b) Y))) = 0.
+Proof.
+  intros g b X Y. apply t2_sumA_zeros. apply t2_cdf_terms_const with (c := b).
+  intros x Hx. apply (Permutation_in _ (t2_isort_perm _)) in Hx.
+  rewrite <- map_app in Hx. apply in_map_iff in Hx. destruct Hx as [w [Hw _]]. lra.
+Qed.
+
+Lemma emd_affine_zero : forall (b : R) (X Y : list R),
+  emd_dist (A:=RealA) (map (fun x => 0 * x + b) X) (map (fun x => 0 * x + b) Y) = 0.
+Proof. intros b X Y. unfold emd_dist. apply t2_zero_sum. Qed.
+
+Lemma energy_affine_zero : forall (b : R) (X Y : list R),
+  energy_dist (A:=RealA) (map (fun x => 0 * x + b) X) (map (fun x => 0 * x + b) Y) = 0.
+Proof.
+  intros b X Y. unfold energy_dist. rewrite t2_zero_sum. cbn [mul sqrt RealA].
+  rewrite sqrt_0. eqR. ring.
+Qed.
+
+(** ** reflection *)
+Lemma t2_srt_app : forall l1 l2 : list R, t2_srt l1 -> t2_srt l2 ->
+  (forall x y : R, In x l1 -> In y l2 -> x <= y) -> t2_srt (l1 ++ l2).
+Proof.
+  induction l1 as [|a l1 IH]; intros l2 H1 H2 H; cbn [app]; [exact H2|].
+  destruct H1 as [Ha H1]. cbn [t2_srt]. split.
+  - intros y Hy. apply in_app_or in Hy.
+    destruct Hy as [Hy|Hy]; [auto | apply H; [left; reflexivity | exact Hy]].
+  - apply IH; auto. intros x y Hx Hy. apply H; [right; exact Hx | exact Hy].
+Qed.
+
+Lemma t2_srt_rev_opp : forall l : list R, t2_srt l -> t2_srt (rev (map Ropp l)).
+Proof.
+  induction l as [|z r IH]; intros Hs; [exact I|].
+  cbn [map rev]. destruct Hs as [Hz Hr].
+  apply t2_srt_app; [apply IH; exact Hr | cbn [t2_srt]; split; [intros y []|exact I] |].
+  intros x y Hx [<-|[]]. rewrite <- in_rev in Hx. apply in_map_iff in Hx.
+  destruct Hx as [w [<- Hw]]. specialize (Hz w Hw). lra.
+Qed.
+
+Lemma t2_srt_perm_eq : forall l1 l2 : list R, t2_srt l1 -> t2_srt l2 -> Permutation l1 l2 -> l1 = l2.
+Proof.
+  induction l1 as [|a l1 IH]; intros l2 H1 H2 HP.
+  - apply Permutation_nil in HP. auto.
+  - destruct l2 as [|c l2]; [apply Permutation_sym, Permutation_nil in HP; discriminate|].
+    destruct H1 as [Ha H1]. destruct H2 as [Hc H2].
+    assert (Hac : a = c).
+    { assert (In a (c :: l2)) as Hi by (apply (Permutation_in _ HP); left; reflexivity).
+      assert (In c (a :: l1)) as Hj by (apply (Permutation_in _ (Permutation_sym HP)); left; reflexivity).
+      destruct Hi as [Hi|Hi]; [auto|]. destruct Hj as [Hj|Hj]; [auto|].
+      specialize (Hc a Hi). specialize (Ha c Hj). lra. }
+    subst c. f_equal. apply IH; auto. apply Permutation_cons_inv with a. exact HP.
+Qed.
+
+Lemma t2_isort_opp : forall l : list R,
+  isort (A:=RealA) (map Ropp l) = rev (map Ropp (isort (A:=RealA) l)).
+Proof.
+  intros l. apply t2_srt_perm_eq.
+  - apply t2_isort_srt.
+  - apply t2_srt_rev_opp, t2_isort_srt.
+  - eapply perm_trans; [apply t2_isort_perm|].
+    eapply perm_trans; [|apply Permutation_rev].
+    apply Permutation_map, Permutation_sym, t2_isort_perm.
+Qed.
+
+Lemma t2_cdf_terms_snoc : forall (g : R -> R) (X Y l : list R) (u v : R),
+  cdf_terms (A:=RealA) g X Y ((l ++ [u]) ++ [v]) =
+  cdf_terms (A:=RealA) g X Y (l ++ [u]) ++ [g (ecdf (A:=RealA) X u - ecdf (A:=RealA) Y u) * (v - u)].
+Proof.
+  intros g X Y l u v. induction l as [|w l' IH]; [reflexivity|].
+  destruct l' as [|w' l'']; [reflexivity|].
+  cbn [app] in *. rewrite !t2_cdf_terms_cons2. rewrite IH. reflexivity.
+Qed.
+
+Lemma t2_count_le_opp : forall (z z' : R) (X : list R), z < z' ->
+  (forall x : R, In x X -> x <= z \/ z' <= x) ->
+  count_le (A:=RealA) (- z') (map Ropp X) = (Z.of_nat (length X) - count_le (A:=RealA) z X)%Z.
+Proof.
+  intros z z' X Hlt. unfold count_le. cbn [leb RealA].
+  induction X as [|x r IH]; intros H; [reflexivity|].
+  cbn [map filter].
+  assert (Hr : forall x0 : R, In x0 r -> x0 <= z \/ z' <= x0) by (intros x0 Hx0; apply H; right; exact Hx0).
+  specialize (IH Hr). destruct (H x (or_introl eq_refl)) as [Hx|Hx].
+  - destruct (Rleb_spec (- x) (- z')) as [H1|H1]; [exfalso; lra|].
+    destruct (Rleb_spec x z) as [H2|H2]; [|exfalso; lra].
+    cbn [length]. lia.
+  - destruct (Rleb_spec (- x) (- z')) as [H1|H1]; [|exfalso; lra].
+    destruct (Rleb_spec x z) as [H2|H2]; [exfalso; lra|].
+    cbn [length]. lia.
+Qed.
+
+Lemma t2_ecdf_opp : forall (z z' : R) (X : list R), X <> [] -> z < z' ->
+  (forall x : R, In x X -> x <= z \/ z' <= x) ->
+  ecdf (A:=RealA) (map Ropp X) (- z') = 1 - ecdf (A:=RealA) X z.
+Proof.
+  intros z z' X Hne Hlt H. unfold ecdf.
+  rewrite map_length, (t2_count_le_opp z z' X Hlt H).
+  rewrite !ofN_INR. change (num RealA) with R. cbn [ofZ div RealA]. rewrite minus_IZR, <- INR_IZR_INZ.
+  assert (Hp : 0 < INR (length X)).
+  { destruct X as [|x r]; [congruence|]. apply lt_0_INR. cbn [length]. lia. }
+  eqR. field. lra.
+Qed.
+
+Lemma t2_refl_sum : forall (g : R -> R) (X Y : list R),
+  (forall t : R, g (- t) = g t) -> X <> [] -> Y <> [] ->
+  forall L : list R, t2_srt L ->
+  (forall x : R, In x X \/ In x Y -> match L with [] => True | z :: r => x <= z \/ In x r end) ->
+  sumA (A:=RealA) (cdf_terms (A:=RealA) g (map Ropp X) (map Ropp Y) (rev (map Ropp L))) =
+  sumA (A:=RealA) (cdf_terms (A:=RealA) g X Y L).
+Proof.
+  intros g X Y Hg HX HY. induction L as [|z r IH]; intros Hs H; [reflexivity|].
+  destruct r as [|z' r']; [reflexivity|].
+  change (rev (map Ropp (z :: z' :: r'))) with ((rev (map Ropp r') ++ [- z']) ++ [- z]).
+  rewrite t2_cdf_terms_snoc, sumA_app, t2_cdf_terms_cons2, !sumA_cons.
+  change (rev (map Ropp r') ++ [- z']) with (rev (map Ropp (z' :: r'))).
+  destruct Hs as [Hz Hs']. pose proof Hs' as [Hz' _].
+  assert (Hzz : z <= z') by (apply Hz; left; reflexivity).
+  assert (Hsep : forall x : R, In x X \/ In x Y -> x <= z \/ z' <= x).
+  { intros x Hx. destruct (H x Hx) as [Hl|[<-|Hi]]; [left; exact Hl | right; lra | right; apply Hz'; exact Hi]. }
+  rewrite IH; [|exact Hs'|].
+  2:{ intros x Hx. destruct (H x Hx) as [Hl|[<-|Hi]]; [left; lra | left; lra | right; exact Hi]. }
+  sumA0.
+  destruct (Req_dec z z') as [->|Hne].
+  - eqR. change (num RealA) with R. ring.
+  - assert (Hlt : z < z') by lra.
+    rewrite (t2_ecdf_opp z z' X HX Hlt) by (intros x Hx; apply Hsep; left; exact Hx).
+    rewrite (t2_ecdf_opp z z' Y HY Hlt) by (intros x Hx; apply Hsep; right; exact Hx).
+    replace (1 - ecdf (A:=RealA) X z - (1 - ecdf (A:=RealA) Y z))
+      with (- (ecdf (A:=RealA) X z - ecdf (A:=RealA) Y z)) by ring.
+    rewrite Hg. eqR. change (num RealA) with R. ring.
+Qed.
+
+Lemma t2_refl_sum_isort : forall (g : R -> R) (X Y : list R),
+  (forall t : R, g (- t) = g t) -> X <> [] -> Y <> [] ->
+  sumA (A:=RealA) (cdf_terms (A:=RealA) g (map Ropp X) (map Ropp Y) (isort (A:=RealA) (map Ropp X ++ map Ropp Y))) =
+  sumA (A:=RealA) (cdf_terms (A:=RealA) g X Y (isort (A:=RealA) (X ++ Y))).
+Proof.
+  intros g X Y Hg HX HY. rewrite <- map_app, t2_isort_opp.
+  apply t2_refl_sum; auto; [apply t2_isort_srt|].
+  intros x Hx.
+  assert (Hin : In x (isort (A:=RealA) (X ++ Y))).
+  { apply (Permutation_in _ (Permutation_sym (t2_isort_perm _))). apply in_or_app. exact Hx. }
+  destruct (isort (A:=RealA) (X ++ Y)) as [|z r]; [exact I|].
+  destruct Hin as [<-|Hin]; [left; lra | right; exact Hin].
+Qed.
+
+Lemma t2_absA_opp : forall t : R, absA (A:=RealA) (- t) = absA (A:=RealA) t.
+Proof.
+  intros t. unfold absA. cbn [ltb sub RealA]. change (@zero RealA) with 0.
+  destruct (Rltb_spec (- t) 0); destruct (Rltb_spec t 0); lra.
+Qed.
+
+Lemma t2_sqr_opp : forall t : R, sqr (A:=RealA) (- t) = sqr (A:=RealA) t.
+Proof. intros t. unfold sqr. cbn [mul RealA]. eqR. ring. Qed.
+
+Lemma emd_neg : forall X Y : list R, X <> [] -> Y <> [] ->
+  emd_dist (A:=RealA) (map Ropp X) (map Ropp Y) = emd_dist (A:=RealA) X Y.
+Proof.
+  intros X Y HX HY. unfold emd_dist. apply t2_refl_sum_isort; auto. exact t2_absA_opp.
+Qed.
+
+Lemma energy_neg : forall X Y : list R, X <> [] -> Y <> [] ->
+  energy_dist (A:=RealA) (map Ropp X) (map Ropp Y) = energy_dist (A:=RealA) X Y.
+Proof.
+  intros X Y HX HY. unfold energy_dist.
+  cbn [mul sqrt RealA]. f_equal. f_equal. apply (t2_refl_sum_isort sqr X Y t2_sqr_opp HX HY).
+Qed.
+
+(** ** general affine map *)
+Lemma t2_map_affine_neg : forall (a b : R) (X : list R),
+  map (fun x : R => a * x + b) X = map (fun x : R => (- a) * x + b) (map Ropp X).
+Proof.
+  intros a b X. rewrite map_map. apply map_ext. intros x. ring.
+Qed.
+
+Lemma emd_affine : forall (a b : R) (X Y : list R), X <> [] -> Y <> [] ->
+  emd_dist (A:=RealA) (map (fun x => a * x + b) X) (map (fun x => a * x + b) Y) = Rabs a * emd_dist (A:=RealA) X Y.
+Proof.
+  intros a b X Y HX HY. destruct (Rtotal_order a 0) as [Hneg|[->|Hpos]].
+  - rewrite (t2_map_affine_neg a b X), (t2_map_affine_neg a b Y).
+    rewrite emd_affine_pos by lra. rewrite emd_neg by assumption.
+    rewrite Rabs_left by exact Hneg. reflexivity.
+  - rewrite emd_affine_zero, Rabs_R0. eqR. ring.
+  - rewrite emd_affine_pos by exact Hpos. rewrite Rabs_right by lra. reflexivity.
+Qed.
+
+Lemma energy_affine : forall (a b : R) (X Y : list R), X <> [] -> Y <> [] ->
+  energy_dist (A:=RealA) (map (fun x => a * x + b) X) (map (fun x => a * x + b) Y) = sqrt (Rabs a) * energy_dist (A:=RealA) X Y.
+Proof.
+  intros a b X Y HX HY. destruct (Rtotal_order a 0) as [Hneg|[->|Hpos]].
+  - rewrite (t2_map_affine_neg a b X), (t2_map_affine_neg a b Y).
+    rewrite energy_affine_pos by lra. rewrite energy_neg by assumption.
+    rewrite Rabs_left by exact Hneg. reflexivity.
+  - rewrite energy_affine_zero, Rabs_R0. cbn [sqrt RealA]. rewrite sqrt_0. eqR. ring.
+  - rewrite energy_affine_pos by exact Hpos. rewrite Rabs_right by lra. reflexivity.
+Qed.
+
+(** * Part C — the distances on samples (composition of the parts above) *)
+
+Lemma c_hellinger_eq : forall (nb : nat) (X Y : list R),
+  hellinger_dist (A:=RealA) nb X Y = hellinger_f (A:=RealA) (fst (bins_values (A:=RealA) X Y nb)) (snd (bins_values (A:=RealA) X Y nb)).
+Proof. intros. unfold hellinger_dist. destruct (bins_values X Y nb); reflexivity. Qed.
+Lemma c_bhattacharyya_eq : forall (nb : nat) (X Y : list R),
+  bhattacharyya_dist (A:=RealA) nb X Y = bhattacharyya_f (A:=RealA) (fst (bins_values (A:=RealA) X Y nb)) (snd (bins_values (A:=RealA) X Y nb)).
+Proof. intros. unfold bhattacharyya_dist. destruct (bins_values X Y nb); reflexivity. Qed.
+Lemma c_psi_eq : forall (tiny : R) (nb : nat) (X Y : list R),
+  psi_dist (A:=RealA) tiny nb X Y = psi_f (A:=RealA) tiny (fst (bins_values (A:=RealA) X Y nb)) (snd (bins_values (A:=RealA) X Y nb)).
+Proof. intros. unfold psi_dist. destruct (bins_values X Y nb); reflexivity. Qed.
+Lemma c_hi_eq : forall (nb : nat) (X Y : list R),
+  hi_dist (A:=RealA) nb X Y = hi_f (A:=RealA) (fst (hi_props (A:=RealA) nb X Y)) (snd (hi_props (A:=RealA) nb X Y)).
+Proof. intros. unfold hi_dist. destruct (hi_props nb X Y); reflexivity. Qed.
+
+(** ** Hellinger *)
+Lemma hellinger_dist_range : forall (nb : nat) (X Y : list R), (1 <= nb)%nat -> X <> [] -> Y <> [] ->
+  0 <= hellinger_dist (A:=RealA) nb X Y <= 1.
+Proof.
+  intros nb X Y Hnb HX HY. rewrite c_hellinger_eq.
+  destruct (bins_values_dist nb X Y Hnb HX HY) as (Hp & Hq & _).
+  split; [apply hellinger_nonneg | apply hellinger_le1; auto].
+Qed.
+Lemma hellinger_dist_self : forall (nb : nat) (X : list R), hellinger_dist (A:=RealA) nb X X = 0.
+Proof. intros. rewrite c_hellinger_eq, bins_values_self. apply hellinger_self. Qed.
+Lemma hellinger_dist_sym : forall (nb : nat) (X Y : list R),
+  hellinger_dist (A:=RealA) nb X Y = hellinger_dist (A:=RealA) nb Y X.
+Proof. intros. rewrite !c_hellinger_eq, (bins_values_swap nb X Y). cbn [fst snd]. apply hellinger_sym. Qed.
+Lemma hellinger_dist_perm : forall (nb : nat) (X X' Y Y' : list R), Permutation X X' -> Permutation Y Y' ->
+  hellinger_dist (A:=RealA) nb X Y = hellinger_dist (A:=RealA) nb X' Y'.
+Proof. intros nb X X' Y Y' HX HY. rewrite !c_hellinger_eq, (bins_values_perm nb X X' Y Y' HX HY). reflexivity. Qed.
+
+(** ** Bhattacharyya *)
+Lemma bhattacharyya_dist_range : forall (nb : nat) (X Y : list R), (1 <= nb)%nat -> X <> [] -> Y <> [] ->
+  0 <= bhattacharyya_dist (A:=RealA) nb X Y <= 1.
+Proof.
+  intros nb X Y Hnb HX HY. rewrite c_bhattacharyya_eq.
+  destruct (bins_values_dist nb X Y Hnb HX HY) as (Hp & Hq & _).
+  split; [apply bhattacharyya_nonneg; auto | apply bhattacharyya_le1; [apply Hp | apply Hq]].
+Qed.
+Lemma bhattacharyya_dist_self : forall (nb : nat) (X : list R), (1 <= nb)%nat -> X <> [] ->
+  bhattacharyya_dist (A:=RealA) nb X X = 0.
+Proof.
+  intros nb X Hnb HX. rewrite c_bhattacharyya_eq, bins_values_self. apply bhattacharyya_self.
+  apply (bins_values_dist nb X X Hnb HX HX).
+Qed.
+Lemma bhattacharyya_dist_sym : forall (nb : nat) (X Y : list R),
+  bhattacharyya_dist (A:=RealA) nb X Y = bhattacharyya_dist (A:=RealA) nb Y X.
+Proof. intros. rewrite !c_bhattacharyya_eq, (bins_values_swap nb X Y). cbn [fst snd]. apply bhattacharyya_sym. Qed.
+Lemma bhattacharyya_dist_perm : forall (nb : nat) (X X' Y Y' : list R), Permutation X X' -> Permutation Y Y' ->
+  bhattacharyya_dist (A:=RealA) nb X Y = bhattacharyya_dist (A:=RealA) nb X' Y'.
+Proof. intros nb X X' Y Y' HX HY. rewrite !c_bhattacharyya_eq, (bins_values_perm nb X X' Y Y' HX HY). reflexivity. Qed.
+
+(** ** PSI *)
+Lemma psi_dist_nonneg : forall (tiny : R) (nb : nat) (X Y : list R), 0 < tiny -> (1 <= nb)%nat -> X <> [] -> Y <> [] ->
+  0 <= psi_dist (A:=RealA) tiny nb X Y.
+Proof.
+  intros tiny nb X Y Ht Hnb HX HY. rewrite c_psi_eq.
+  destruct (bins_values_dist nb X Y Hnb HX HY) as (Hp & Hq & _).
+  apply psi_nonneg; [auto | apply Hp | apply Hq].
+Qed.
+Lemma psi_dist_self : forall (tiny : R) (nb : nat) (X : list R), psi_dist (A:=RealA) tiny nb X X = 0.
+Proof. intros. rewrite c_psi_eq, bins_values_self. apply psi_self. Qed.
+Lemma psi_dist_sym : forall (tiny : R) (nb : nat) (X Y : list R), 0 < tiny -> (1 <= nb)%nat -> X <> [] -> Y <> [] ->
+  psi_dist (A:=RealA) tiny nb X Y = psi_dist (A:=RealA) tiny nb Y X.
+Proof.
+  intros tiny nb X Y Ht Hnb HX HY. rewrite !c_psi_eq, (bins_values_swap nb X Y). cbn [fst snd].
+  destruct (bins_values_dist nb X Y Hnb HX HY) as (Hp & Hq & _).
+  apply psi_sym; [auto | apply Hp | apply Hq].
+Qed.
+Lemma psi_dist_perm : forall (tiny : R) (nb : nat) (X X' Y Y' : list R), Permutation X X' -> Permutation Y Y' ->
+  psi_dist (A:=RealA) tiny nb X Y = psi_dist (A:=RealA) tiny nb X' Y'.
+Proof. intros tiny nb X X' Y Y' HX HY. rewrite !c_psi_eq, (bins_values_perm nb X X' Y Y' HX HY). reflexivity. Qed.
+
+(** ** histogram intersection (normalised complement) *)
+Lemma hi_dist_range : forall (nb : nat) (X Y : list R), (1 <= nb)%nat -> X <> [] -> Y <> [] ->
+  0 <= hi_dist (A:=RealA) nb X Y <= 1.
+Proof.
+  intros nb X Y Hnb HX HY. rewrite c_hi_eq.
+  destruct (hi_props_dist nb X Y Hnb HX HY) as (Hp & Hq).
+  split; [apply hi_nonneg; auto | apply hi_le1; [apply Hp | apply Hq]].
+Qed.
+Lemma hi_dist_self : forall (nb : nat) (X : list R), (1 <= nb)%nat -> X <> [] -> hi_dist (A:=RealA) nb X X = 0.
+Proof.
+  intros nb X Hnb HX. rewrite c_hi_eq, hi_props_self. apply hi_self.
+  apply (hi_props_dist nb X X Hnb HX HX).
+Qed.
+Lemma hi_dist_sym : forall (nb : nat) (X Y : list R), X <> [] -> Y <> [] ->
+  hi_dist (A:=RealA) nb X Y = hi_dist (A:=RealA) nb Y X.
+Proof. intros nb X Y HX HY. rewrite !c_hi_eq, (hi_props_swap nb X Y HX HY). cbn [fst snd]. apply hi_sym. Qed.
+Lemma hi_dist_perm : forall (nb : nat) (X X' Y Y' : list R), Permutation X X' -> Permutation Y Y' ->
+  hi_dist (A:=RealA) nb X Y = hi_dist (A:=RealA) nb X' Y'.
+Proof. intros nb X X' Y Y' HX HY. rewrite !c_hi_eq, (hi_props_perm nb X X' Y Y' HX HY). reflexivity. Qed.
+
+(** ** JS / KL, relative to the auto-histogram oracle [hX], [hY] *)
+Lemma pooled_points_perm : forall (nb : nat) (X X' Y Y' : list R), Permutation X X' -> Permutation Y Y' ->
+  pooled_points (A:=RealA) X Y nb = pooled_points (A:=RealA) X' Y' nb.
+Proof.
+  intros nb X X' Y Y' HX HY. unfold pooled_points.
+  assert (HP : Permutation (X ++ Y) (X' ++ Y')) by (apply Permutation_app; auto).
+  change (num RealA) with R in *.
+  rewrite (lmin_perm _ _ HP), (lmax_perm _ _ HP). reflexivity.
+Qed.
+Lemma pooled_points_swap : forall (nb : nat) (X Y : list R),
+  pooled_points (A:=RealA) Y X nb = pooled_points (A:=RealA) X Y nb.
+Proof.
+  intros nb X Y. unfold pooled_points. change (num RealA) with R in *.
+  rewrite (lmin_perm _ _ (Permutation_app_comm Y X)), (lmax_perm _ _ (Permutation_app_comm Y X)). reflexivity.
+Qed.
+
+Lemma c_diffF_length : forall (F : R -> R) (pts : list R), length (diffF (A:=RealA) F pts) = pred (length pts).
+Proof.
+  intros F pts. induction pts as [|a r IH]; [reflexivity|]. cbn [diffF]. destruct r as [|b r']; [reflexivity|].
+  cbn [length]. rewrite IH. reflexivity.
+Qed.
+Lemma masses_length : forall (c : list Z) (e pts : list R), length (masses (A:=RealA) c e pts) = pred (length pts).
+Proof. intros. unfold masses. apply c_diffF_length. Qed.
+
+Lemma js_dist_sym : forall (nb : nat) (hX hY : list Z * list R) (X Y : list R),
+  js_dist (A:=RealA) nb hX hY X Y = js_dist (A:=RealA) nb hY hX Y X.
+Proof. intros. unfold js_dist. rewrite (pooled_points_swap nb X Y). apply js_sym. Qed.
+Lemma js_dist_perm : forall (nb : nat) (hX hY : list Z * list R) (X X' Y Y' : list R), Permutation X X' -> Permutation Y Y' ->
+  js_dist (A:=RealA) nb hX hY X Y = js_dist (A:=RealA) nb hX hY X' Y'.
+Proof. intros nb hX hY X X' Y Y' HX HY. unfold js_dist. rewrite (pooled_points_perm nb X X' Y Y' HX HY). reflexivity. Qed.
+Lemma kl_dist_perm : forall (nb : nat) (hX hY : list Z * list R) (X X' Y Y' : list R), Permutation X X' -> Permutation Y Y' ->
+  kl_dist (A:=RealA) nb hX hY X Y = kl_dist (A:=RealA) nb hX hY X' Y'.
+Proof. intros nb hX hY X X' Y Y' HX HY. unfold kl_dist. rewrite (pooled_points_perm nb X X' Y Y' HX HY). reflexivity. Qed.
+
+(** range, given that the discretised masses of the two oracle histograms are non-negative
+    with a positive total *)
+Lemma js_dist_range : forall (nb : nat) (hX hY : list Z * list R) (X Y : list R),
+  let P := masses (A:=RealA) (fst hX) (snd hX) (pooled_points (A:=RealA) X Y nb) in
+  let Q := masses (A:=RealA) (fst hY) (snd hY) (pooled_points (A:=RealA) X Y nb) in
+  nonneg P -> nonneg Q -> 0 < sumA (A:=RealA) P -> 0 < sumA (A:=RealA) Q ->
+  exists v : R, js_dist (A:=RealA) nb hX hY X Y = Fin v /\ 0 <= v /\ v <= sqrt (ln 2).
+Proof.
+  intros nb hX hY X Y P Q HP HQ HsP HsQ. unfold js_dist. apply js_range; auto.
+  unfold P, Q. rewrite !masses_length. reflexivity.
+Qed.
+Lemma js_dist_self : forall (nb : nat) (h : list Z * list R) (X : list R),
+  let P := masses (A:=RealA) (fst h) (snd h) (pooled_points (A:=RealA) X X nb) in
+  nonneg P -> 0 < sumA (A:=RealA) P -> js_dist (A:=RealA) nb h h X X = Fin 0.
+Proof. intros nb h X P HP Hs. unfold js_dist. apply js_self; auto. Qed.
+Lemma kl_dist_self : forall (nb : nat) (h : list Z * list R) (X : list R),
+  nonneg (masses (A:=RealA) (fst h) (snd h) (pooled_points (A:=RealA) X X nb)) -> kl_dist (A:=RealA) nb h h X X = Fin 0.
+Proof. intros nb h X HP. unfold kl_dist. apply kl_self; auto. Qed.
+(** KL(test || reference) >= 0 (or +inf) PROVIDED the test masses total at least the reference
+    masses — which fails when the test sample is constant (its histogram [c-1/2, c+1/2] spills
+    outside the pooled range) *)
+Lemma kl_dist_nonneg : forall (nb : nat) (hX hY : list Z * list R) (X Y : list R),
+  let P := masses (A:=RealA) (fst hX) (snd hX) (pooled_points (A:=RealA) X Y nb) in
+  let Q := masses (A:=RealA) (fst hY) (snd hY) (pooled_points (A:=RealA) X Y nb) in
+  nonneg P -> nonneg Q -> sumA (A:=RealA) P <= sumA (A:=RealA) Q ->
+  kl_dist (A:=RealA) nb hX hY X Y = PInf \/ exists v : R, kl_dist (A:=RealA) nb hX hY X Y = Fin v /\ 0 <= v.
+Proof.
+  intros nb hX hY X Y P Q HP HQ Hs. unfold kl_dist. apply kl_nonneg; auto.
+  unfold P, Q. rewrite !masses_length. reflexivity.
+Qed.
+Lemma kl_dist_lower : forall (nb : nat) (hX hY : list Z * list R) (X Y : list R) (v : R),
+  let P := masses (A:=RealA) (fst hX) (snd hX) (pooled_points (A:=RealA) X Y nb) in
+  let Q := masses (A:=RealA) (fst hY) (snd hY) (pooled_points (A:=RealA) X Y nb) in
+  nonneg P -> nonneg Q -> kl_dist (A:=RealA) nb hX hY X Y = Fin v -> sumA (A:=RealA) Q - sumA (A:=RealA) P <= v.
+Proof.
+  intros nb hX hY X Y v P Q HP HQ Hv. unfold kl_dist in Hv. apply (kl_lower P Q); auto.
+  unfold P, Q. rewrite !masses_length. reflexivity.
+Qed.
+
+(** ** F29: both samples constant and equal => every discretised mass is 0 => JS = 0/0 = nan,
+       whatever the oracle histograms are *)
+Lemma c_lmin_const : forall (l : list R) (c : R), l <> [] -> (forall x, In x l -> x = c) -> lmin (A:=RealA) l = c.
+Proof. intros l c Hne H. apply H. apply lmin_in; auto. Qed.
+Lemma c_lmax_const : forall (l : list R) (c : R), l <> [] -> (forall x, In x l -> x = c) -> lmax (A:=RealA) l = c.
+Proof. intros l c Hne H. apply H. apply lmax_in; auto. Qed.
+
+Lemma c_linspace_const : forall (c : R) (n : nat) (x : R), In x (linspace (A:=RealA) c c n) -> x = c.
+Proof.
+  intros c n x Hin. destruct n as [|[|n]]; cbn [linspace] in Hin.
+  - contradiction.
+  - destruct Hin as [<-|[]]. cbn [add sub mul RealA]. change (@zero RealA) with 0. eqR. ring.
+  - apply in_app_or in Hin. destruct Hin as [Hin|[<-|[]]]; [|reflexivity].
+    apply in_map_iff in Hin. destruct Hin as (i & <- & _).
+    cbn [add sub mul div eqb RealA]. destruct (Reqb _ _); eqR; unfold Rdiv; ring.
+Qed.
+
+Lemma c_diffF_const : forall (F : R -> R) (pts : list R) (c : R), (forall x, In x pts -> x = c) ->
+  forall m, In m (diffF (A:=RealA) F pts) -> m = 0.
+Proof.
+  intros F pts c. induction pts as [|a r IH]; intros H m Hm; [contradiction|].
+  cbn [diffF] in Hm. destruct r as [|b r']; [contradiction|].
+  destruct Hm as [<-|Hm].
+  - rewrite (H a), (H b) by (cbn; auto). cbn [sub RealA]. eqR. ring.
+  - apply IH; auto. intros x Hx. apply H. right; auto.
+Qed.
+
+Lemma c_sumA_zero : forall l : list R, (forall m, In m l -> m = 0) -> sumA (A:=RealA) l = 0 /\ nonneg l.
+Proof.
+  induction l as [|x l IH]; intros H.
+  - split; [reflexivity | constructor].
+  - destruct IH as (Hs & Hn); [intros m Hm; apply H; right; auto|].
+    rewrite sumA_cons, Hs, (H x) by (left; auto). split; [lra|].
+    constructor; [lra | exact Hn].
+Qed.
+
+Lemma js_dist_const_nan : forall (nb : nat) (hX hY : list Z * list R) (X Y : list R) (c : R),
+  X <> [] -> Y <> [] -> (forall x, In x X -> x = c) -> (forall y, In y Y -> y = c) ->
+  js_dist (A:=RealA) nb hX hY X Y = NaN.
+Proof.
+  intros nb hX hY X Y c HX HY HcX HcY. unfold js_dist.
+  assert (Hpool : X ++ Y <> []) by (destruct X; [congruence | discriminate]).
+  assert (Hc : forall x, In x (X ++ Y) -> x = c) by (intros x Hx; apply in_app_or in Hx; destruct Hx; auto).
+  assert (Hpts : forall x, In x (pooled_points (A:=RealA) X Y nb) -> x = c).
+  { unfold pooled_points. change (num RealA) with R in *.
+    rewrite (c_lmin_const _ c Hpool Hc), (c_lmax_const _ c Hpool Hc). apply c_linspace_const. }
+  set (P := masses (fst hX) (snd hX) (pooled_points X Y nb)).
+  set (Q := masses (fst hY) (snd hY) (pooled_points X Y nb)).
+  destruct (c_sumA_zero P) as (HsP & HnP); [unfold P, masses; apply (c_diffF_const _ _ c Hpts)|].
+  destruct (c_sumA_zero Q) as (HsQ & HnQ); [unfold Q, masses; apply (c_diffF_const _ _ c Hpts)|].
+  apply js_nan_iff; auto.
+Qed.
+
+(** ** KL(test || reference) can be NEGATIVE in the model (and in the code): a constant test
+       sample has the histogram [c - 1/2, c + 1/2], only part of whose mass lies in the pooled range *)
+Lemma k_linspace_2 : forall a b : R, linspace (A:=RealA) a b 2 = [a; b].
+Proof.
+  intros a b. cbn [linspace seq map app]. f_equal.
+  cbn [add sub mul div eqb RealA]. unfold ofN. cbn [Z.of_nat ofZ RealA].
+  destruct (Reqb _ _); eqR; unfold Rdiv; ring.
+Qed.
+
+Lemma rvh_cdf_below : forall (edges t : list R) (x : R), x <= hd 0 edges -> rvh_cdf (A:=RealA) edges t x = 0.
+Proof.
+  intros edges t x H. unfold rvh_cdf. cbn [leb RealA]. change (@zero RealA) with 0. change (num RealA) with R.
+  destruct (Rleb_spec x (hd 0 edges)); [reflexivity | lra].
+Qed.
+Lemma rvh_cdf_above : forall (edges t : list R) (x : R), hd 0 edges < x -> last edges 0 <= x -> rvh_cdf (A:=RealA) edges t x = 1.
+Proof.
+  intros edges t x H1 H2. unfold rvh_cdf. cbn [leb RealA]. change (@zero RealA) with 0. change (num RealA) with R.
+  destruct (Rleb_spec x (hd 0 edges)); [lra|].
+  destruct (Rleb_spec (last edges 0) x); [reflexivity | lra].
+Qed.
+
+Lemma k_cdf_const_sample : rvh_cdf (A:=RealA) [-1/2; 1/2] (rvh_cdf_table (A:=RealA) [1%Z] [-1/2; 1/2]) 0 = 1/2.
+Proof.
+  unfold rvh_cdf, rvh_cdf_table. cbn [diffA map2 map hd last filter length pred nth cumsumA].
+  cbn [leb eqb add sub mul div ofZ RealA]. change (@zero RealA) with 0.
+  destruct (Rleb_spec 0 (-1/2)); [lra|].
+  destruct (Rleb_spec (1/2) 0); [lra|].
+  destruct (Rleb_spec (-1/2) 0); [|lra]. cbn [length pred nth].
+  destruct (Reqb (-1/2) 0) eqn:E; [apply Reqb_true in E; lra|].
+  unfold sumA. cbn [fold_left add RealA]. change (@zero RealA) with 0. eqR. field.
+Qed.
+
+Lemma kl_negative_witness :
+  let X := [0; 1/2] in let hX := ([1%Z; 1%Z], [0; 1/4; 1/2]) in
+  let Y := [0] in let hY := ([1%Z], [-1/2; 1/2]) in
+  exists v : R, kl_dist (A:=RealA) 2 hX hY X Y = Fin v /\ v < 0.
+Proof.
+  intros X hX Y hY. exists ((1 - 1/2) * ln ((1 - 1/2) / (1 - 0))). split.
+  - unfold kl_dist, pooled_points.
+    assert (Hmin : lmin (A:=RealA) (X ++ Y) = 0).
+    { apply Rle_antisym; [apply lmin_le; cbn; auto|].
+      destruct (lmin_in (X ++ Y) ltac:(discriminate)) as [H|[H|[H|[]]]]; rewrite <- H; lra. }
+    assert (Hmax : lmax (A:=RealA) (X ++ Y) = 1/2).
+    { apply Rle_antisym; [|apply lmax_ge; cbn; auto].
+      destruct (lmax_in (X ++ Y) ltac:(discriminate)) as [H|[H|[H|[]]]]; rewrite <- H; lra. }
+    change (num RealA) with R in *. rewrite Hmin, Hmax, k_linspace_2.
+    unfold masses. cbn [diffF fst snd hX hY].
+    rewrite (rvh_cdf_below [0; 1/4; 1/2] _ 0) by (cbn; lra).
+    rewrite (rvh_cdf_above [0; 1/4; 1/2] _ (1/2)) by (cbn; lra).
+    rewrite (rvh_cdf_above [-1/2; 1/2] _ (1/2)) by (cbn; lra).
+    rewrite k_cdf_const_sample.
+    unfold kl_f. cbn [map2]. unfold xsum. cbn [fold_left]. unfold rel_entr.
+    cbn [ltb leb eqb add sub mul div ln RealA]. change (@zero RealA) with 0.
+    destruct (Rltb_spec 0 (1 - 1/2)); [|lra].
+    destruct (Rltb_spec 0 (1 - 0)); [|lra]. cbn [andb xadd]. f_equal. cbn [add RealA]. eqR. ring.
+  - replace ((1 - 1/2) / (1 - 0)) with (/ 2) by field.
+    change (@ln RealA) with Rpower.ln. rewrite ln_Rinv by lra.
+    assert (0 < Rpower.ln 2) by (rewrite <- ln_1; apply ln_increasing; lra). lra.
+Qed.
+
